@@ -22,3 +22,1453 @@ Qed.
 (* ... and merges them into that list otherwise *)
 Lemma accum_merged : forall l0 y r, accum (PList l0 :: y :: r) = PList (l0 ++ y :: r).
 Proof. intros. unfold accum. simpl. rewrite accum_from_list. now rewrite <- app_assoc. Qed.
+
+(* ------------------------------------------------------------------ basics *)
+
+Lemma upd_same : forall A (f : nat -> A) i v, upd f i v i = v.
+Proof. intros. unfold upd. now rewrite Nat.eqb_refl. Qed.
+Lemma upd_other : forall A (f : nat -> A) i j v, j <> i -> upd f i v j = f j.
+Proof. intros. unfold upd. destruct (Nat.eqb j i) eqn:E; auto. apply Nat.eqb_eq in E. contradiction. Qed.
+
+Ltac upds :=
+  repeat (rewrite upd_same in * || (rewrite upd_other in * by lia)).
+
+(* [ext l s s']: s' extends s by newly allocated (queued) events and the log entries l; nothing that
+   existed in s is changed *)
+Record ext (l : list entry) (s s' : st) : Prop := {
+  x_next : next s <= next s';
+  x_old : forall d, d < next s ->
+          spec s' d = spec s d /\ kind s' d = kind s d /\ val s' d = val s d /\
+          waiting s' d = waiting s d /\ phase s' d = phase s d;
+  x_new : forall d, next s <= d < next s' -> phase s' d = PQueued /\ waiting s' d = 0 /\ val s' d = vinit;
+  x_tasks : tasks s' = tasks s;
+  x_queue : queue s' = queue s ++ seq (next s) (next s' - next s);
+  x_log : log s' = l ++ log s
+}.
+
+Lemma ext_refl : forall s, ext [] s s.
+Proof.
+  intros s. split.
+  - lia.
+  - auto.
+  - intros d Hd. exfalso. lia.
+  - reflexivity.
+  - rewrite Nat.sub_diag. simpl. now rewrite app_nil_r.
+  - reflexivity.
+Qed.
+
+Lemma seq_split2 : forall a b c, a <= b -> b <= c -> seq a (c - a) = seq a (b - a) ++ seq b (c - b).
+Proof.
+  intros. replace (c - a) with ((b - a) + (c - b)) by lia.
+  rewrite seq_app. f_equal. f_equal. lia.
+Qed.
+
+Lemma ext_trans : forall l1 l2 s s1 s2, ext l1 s s1 -> ext l2 s1 s2 -> ext (l2 ++ l1) s s2.
+Proof.
+  intros l1 l2 s s1 s2 [n1 o1 w1 t1 q1 g1] [n2 o2 w2 t2 q2 g2]. split.
+  - lia.
+  - intros d Hd. destruct (o1 d Hd) as (a1 & a2 & a3 & a4 & a5).
+    destruct (o2 d ltac:(lia)) as (b1 & b2 & b3 & b4 & b5).
+    repeat split; congruence.
+  - intros d Hd. destruct (Nat.lt_ge_cases d (next s1)) as [Hlt|Hge].
+    + destruct (w1 d ltac:(lia)) as (a1 & a2 & a3).
+      destruct (o2 d Hlt) as (b1 & b2 & b3 & b4 & b5). repeat split; congruence.
+    + apply w2. lia.
+  - congruence.
+  - rewrite q2, q1, <- app_assoc. f_equal. symmetry. apply seq_split2; lia.
+  - rewrite g2, g1. now rewrite app_assoc.
+Qed.
+
+Lemma ext_alloc : forall x k sp s, ext [x] s (alloc k sp (add_log x s)).
+Proof.
+  intros. split.
+  - simpl. lia.
+  - intros d Hd. simpl. upds. auto.
+  - intros d Hd. simpl in *. assert (d = next s) by lia. subst. upds. auto.
+  - reflexivity.
+  - cbn [alloc add_log queue next]. replace (S (next s) - next s) with 1 by lia. reflexivity.
+  - reflexivity.
+Qed.
+
+Lemma ext_fire_user : forall sp s, ext [LF (next s)] s (fire_user sp s).
+Proof. intros. apply ext_alloc. Qed.
+
+Definition is_LF_from (n : nat) (x : entry) : Prop := exists d, x = LF d /\ n <= d.
+
+Lemma ext_fire_all : forall kids s, exists l, ext l s (fire_all kids s) /\ Forall (is_LF_from (next s)) l.
+Proof.
+  induction kids as [|sp r IH]; intros s; simpl.
+  - exists []. split; [apply ext_refl | constructor].
+  - destruct (IH (fire_user sp s)) as (l & Hl & Fl).
+    exists (l ++ [LF (next s)]). split.
+    + eapply ext_trans; [apply ext_fire_user | exact Hl].
+    + apply Forall_app. split.
+      * eapply Forall_impl; [|exact Fl]. intros x (d & -> & Hd). exists d. split; auto. simpl in Hd. lia.
+      * constructor; [|constructor]. exists (next s). split; auto.
+Qed.
+
+Lemma ext_fire_der : forall k e s, ext [LFD k e] s (fire_der k e s).
+Proof. intros. unfold fire_der. destruct (der_chans k (spec s e)). apply ext_alloc. Qed.
+
+Lemma ext_inform : forall f e s, exists l, ext l s (inform f e s) /\ (l = [] \/ l = [LFD DVC e]).
+Proof.
+  intros. unfold inform. destruct (vpromise (val s e) && negb f).
+  - exists []. split; [apply ext_refl | auto].
+  - destruct (ev_notify (spec s e)).
+    + exists [LFD DVC e]. split; [apply ext_fire_der | auto].
+    + exists []. split; [apply ext_refl | auto].
+Qed.
+
+Definition fb_log (fl : bool) (e : nat) : list entry :=
+  LFD DExc e :: (if fl then [LFD DFail e] else []).
+
+Lemma ext_raise_feedback : forall e s, ext (fb_log (ev_fail (spec s e)) e) s (raise_feedback e s).
+Proof.
+  intros. unfold raise_feedback, fb_log. destruct (ev_fail (spec s e)).
+  - change [LFD DExc e; LFD DFail e] with ([LFD DExc e] ++ [LFD DFail e]).
+    eapply ext_trans; apply ext_fire_der.
+  - apply ext_fire_der.
+Qed.
+
+Lemma ext_spec : forall l s s' d, ext l s s' -> d < next s -> spec s' d = spec s d.
+Proof. intros l s s' d H Hd. now destruct (x_old _ _ _ H d Hd) as (? & ? & ? & ? & ?). Qed.
+Lemma ext_kind : forall l s s' d, ext l s s' -> d < next s -> kind s' d = kind s d.
+Proof. intros l s s' d H Hd. now destruct (x_old _ _ _ H d Hd) as (? & ? & ? & ? & ?). Qed.
+Lemma ext_val : forall l s s' d, ext l s s' -> d < next s -> val s' d = val s d.
+Proof. intros l s s' d H Hd. now destruct (x_old _ _ _ H d Hd) as (? & ? & ? & ? & ?). Qed.
+Lemma ext_wait : forall l s s' d, ext l s s' -> d < next s -> waiting s' d = waiting s d.
+Proof. intros l s s' d H Hd. now destruct (x_old _ _ _ H d Hd) as (? & ? & ? & ? & ?). Qed.
+Lemma ext_phase : forall l s s' d, ext l s s' -> d < next s -> phase s' d = phase s d.
+Proof. intros l s s' d H Hd. now destruct (x_old _ _ _ H d Hd) as (? & ? & ? & ? & ?). Qed.
+
+(* ------------------------------------------------------------------ frames *)
+
+(* entry x is not about any event other than e0 *)
+Definition about (e0 : nat) (x : entry) : Prop :=
+  match x with LH e _ | LG e _ _ | LFD _ e => e = e0 | _ => True end.
+
+(* [fr e0 l s s']: like ext, but value / waitingHandlers / phase of the event e0 being processed and
+   the task list may have changed *)
+Record fr (e0 : nat) (l : list entry) (s s' : st) : Prop := {
+  f_next : next s <= next s';
+  f_spec : forall d, d < next s -> spec s' d = spec s d /\ kind s' d = kind s d;
+  f_old : forall d, d < next s -> d <> e0 ->
+          val s' d = val s d /\ waiting s' d = waiting s d /\ phase s' d = phase s d;
+  f_new : forall d, next s <= d < next s' -> phase s' d = PQueued /\ waiting s' d = 0 /\ val s' d = vinit;
+  f_queue : queue s' = queue s ++ seq (next s) (next s' - next s);
+  f_log : log s' = l ++ log s;
+  f_about : Forall (about e0) l
+}.
+
+Lemma ext_fr : forall e0 l s s', ext l s s' -> Forall (about e0) l -> fr e0 l s s'.
+Proof.
+  intros e0 l s s' [n o w t q g] Ha. split; auto.
+  - intros d Hd. destruct (o d Hd) as (? & ? & ? & ? & ?). auto.
+  - intros d Hd _. destruct (o d Hd) as (? & ? & ? & ? & ?). auto.
+Qed.
+
+Lemma fr_trans : forall e0 l1 l2 s s1 s2,
+  e0 < next s -> fr e0 l1 s s1 -> fr e0 l2 s1 s2 -> fr e0 (l2 ++ l1) s s2.
+Proof.
+  intros e0 l1 l2 s s1 s2 He [n1 p1 o1 w1 q1 g1 a1] [n2 p2 o2 w2 q2 g2 a2]. split.
+  - lia.
+  - intros d Hd. destruct (p1 d Hd). destruct (p2 d ltac:(lia)). split; congruence.
+  - intros d Hd Hne. destruct (o1 d Hd Hne) as (? & ? & ?).
+    destruct (o2 d ltac:(lia) Hne) as (? & ? & ?). repeat split; congruence.
+  - intros d Hd. destruct (Nat.lt_ge_cases d (next s1)) as [Hlt|Hge].
+    + destruct (w1 d ltac:(lia)) as (? & ? & ?).
+      destruct (o2 d Hlt ltac:(lia)) as (? & ? & ?). repeat split; congruence.
+    + apply w2. lia.
+  - rewrite q2, q1, <- app_assoc. f_equal. symmetry. apply seq_split2; lia.
+  - rewrite g2, g1. now rewrite app_assoc.
+  - apply Forall_app. auto.
+Qed.
+
+Lemma fr_refl : forall e0 s, fr e0 [] s s.
+Proof. intros. apply ext_fr; [apply ext_refl | constructor]. Qed.
+
+Lemma fr_set_val : forall e0 v s, fr e0 [] s (set_val e0 v s).
+Proof.
+  intros. split; simpl; auto.
+  - intros d Hd Hne. upds. auto.
+  - intros d Hd. exfalso. lia.
+  - rewrite Nat.sub_diag. simpl. now rewrite app_nil_r.
+Qed.
+Lemma fr_set_wait : forall e0 n s, fr e0 [] s (set_wait e0 n s).
+Proof.
+  intros. split; simpl; auto.
+  - intros d Hd Hne. upds. auto.
+  - intros d Hd. exfalso. lia.
+  - rewrite Nat.sub_diag. simpl. now rewrite app_nil_r.
+Qed.
+Lemma fr_set_phase : forall e0 p s, fr e0 [] s (set_phase e0 p s).
+Proof.
+  intros. split; simpl; auto.
+  - intros d Hd Hne. upds. auto.
+  - intros d Hd. exfalso. lia.
+  - rewrite Nat.sub_diag. simpl. now rewrite app_nil_r.
+Qed.
+Lemma fr_set_tasks : forall e0 t s, fr e0 [] s (set_tasks t s).
+Proof.
+  intros. split; simpl; auto.
+  - intros d Hd. exfalso. lia.
+  - rewrite Nat.sub_diag. simpl. now rewrite app_nil_r.
+Qed.
+Lemma fr_add_log : forall e0 x s, about e0 x -> fr e0 [x] s (add_log x s).
+Proof.
+  intros. split; simpl; auto.
+  - intros d Hd. exfalso. lia.
+  - rewrite Nat.sub_diag. simpl. now rewrite app_nil_r.
+Qed.
+
+(* ------------------------------------------------------------------ results / feedback bookkeeping *)
+
+Definition nonempty {A} (l : list A) : bool := match l with [] => false | _ => true end.
+
+Lemma accum_from_app : forall l1 l2 c r,
+  accum_from c r (l1 ++ l2) = accum_from (accum_from c r l1) (r || nonempty l1) l2.
+Proof.
+  induction l1 as [|x l1 IH]; intros; simpl.
+  - now rewrite orb_false_r.
+  - rewrite IH. now rewrite orb_true_r.
+Qed.
+
+Lemma produced_app : forall sp e l lg, produced sp e (l ++ lg) = produced sp e lg ++ produced sp e l.
+Proof. intros. unfold produced. now rewrite rev_app_distr, flat_map_app. Qed.
+
+Lemma produced_one : forall sp e x, produced sp e [x] = contrib sp e x.
+Proof. intros. unfold produced. simpl. now rewrite app_nil_r. Qed.
+
+Lemma produced_cons : forall sp e x lg, produced sp e (x :: lg) = produced sp e lg ++ contrib sp e x.
+Proof. intros. change (x :: lg) with ([x] ++ lg). now rewrite produced_app, produced_one. Qed.
+
+Lemma contrib_sp : forall sp sp' e x, sp' e = sp e -> contrib sp' e x = contrib sp e x.
+Proof. intros. destruct x; simpl; now rewrite ?H. Qed.
+Lemma raises_sp : forall sp sp' e x, sp' e = sp e -> raises sp' e x = raises sp e x.
+Proof. intros. destruct x; simpl; now rewrite ?H. Qed.
+
+Lemma produced_sp : forall sp sp' e l, sp' e = sp e -> produced sp' e l = produced sp e l.
+Proof.
+  intros. unfold produced. induction (rev l) as [|x r IH]; simpl; auto.
+  now rewrite IH, (contrib_sp sp sp').
+Qed.
+Lemma nraised_sp : forall sp sp' e l, sp' e = sp e -> nraised sp' e l = nraised sp e l.
+Proof.
+  intros. unfold nraised. induction l as [|x r IH]; simpl; auto.
+  rewrite (raises_sp sp sp') by auto. destruct (raises sp e x); simpl; now rewrite IH.
+Qed.
+
+Lemma nraised_app : forall sp e l1 l2, nraised sp e (l1 ++ l2) = nraised sp e l1 + nraised sp e l2.
+Proof. intros. unfold nraised. now rewrite filter_app, app_length. Qed.
+
+Lemma count_der_app : forall k e l1 l2, count_der k e (l1 ++ l2) = count_der k e l1 + count_der k e l2.
+Proof.
+  induction l1 as [|x l1 IH]; intros; simpl; auto.
+  destruct x; auto. rewrite IH. lia.
+Qed.
+
+Lemma nonempty_app : forall A (a b : list A), nonempty (a ++ b) = nonempty a || nonempty b.
+Proof. intros. destruct a; simpl; auto. Qed.
+
+(* the Value of event e, its errors flag and the feedback events fired about e agree with the
+   handler activity recorded in the log *)
+Record VC (s : st) (e : nat) : Prop := {
+  vc_val : vv (val s e) = accum (produced (spec s) e (log s));
+  vc_res : vresult (val s e) = nonempty (produced (spec s) e (log s));
+  vc_err : verrors (val s e) = (0 <? nraised (spec s) e (log s));
+  vc_exc : count_der DExc e (log s) = nraised (spec s) e (log s);
+  vc_fail : count_der DFail e (log s) = if ev_fail (spec s e) then nraised (spec s) e (log s) else 0
+}.
+
+Lemma VC_step : forall s s' e l,
+  VC s e -> spec s' e = spec s e -> log s' = l ++ log s ->
+  vv (val s' e) = accum_from (vv (val s e)) (vresult (val s e)) (produced (spec s) e l) ->
+  vresult (val s' e) = vresult (val s e) || nonempty (produced (spec s) e l) ->
+  verrors (val s' e) = verrors (val s e) || (0 <? nraised (spec s) e l) ->
+  count_der DExc e l = nraised (spec s) e l ->
+  count_der DFail e l = (if ev_fail (spec s e) then nraised (spec s) e l else 0) ->
+  VC s' e.
+Proof.
+  intros s s' e l [v1 v2 v3 v4 v5] Hsp Hlog H1 H2 H3 H4 H5.
+  assert (Hp : produced (spec s') e (log s') = produced (spec s) e (log s) ++ produced (spec s) e l).
+  { rewrite Hlog, (produced_sp (spec s) (spec s')) by auto. apply produced_app. }
+  assert (Hn : nraised (spec s') e (log s') = nraised (spec s) e l + nraised (spec s) e (log s)).
+  { rewrite Hlog, (nraised_sp (spec s) (spec s')) by auto. apply nraised_app. }
+  split.
+  - rewrite Hp, H1. unfold accum. rewrite accum_from_app. simpl. now rewrite v1, v2.
+  - rewrite Hp, H2, nonempty_app. now rewrite v2.
+  - rewrite Hn, H3, v3.
+    destruct (nraised (spec s) e l), (nraised (spec s) e (log s)); simpl; auto.
+  - rewrite Hn, Hlog, count_der_app. lia.
+  - rewrite Hn, Hlog, count_der_app, Hsp, H5, v5. destruct (ev_fail (spec s e)); lia.
+Qed.
+
+(* an entry that says nothing about the results / raises / failure feedback of event d *)
+Definition irrel (sp : nat -> ev) (d : nat) (x : entry) : Prop :=
+  contrib sp d x = [] /\ raises sp d x = false /\ count_der DExc d [x] = 0 /\ count_der DFail d [x] = 0.
+
+Lemma irrel_list : forall sp d l, Forall (irrel sp d) l ->
+  produced sp d l = [] /\ nraised sp d l = 0 /\ count_der DExc d l = 0 /\ count_der DFail d l = 0.
+Proof.
+  induction 1 as [|x l (a & b & c & d') _ (IH1 & IH2 & IH3 & IH4)].
+  - repeat split; reflexivity.
+  - assert (E1 : count_der DExc d (x :: l) = 0)
+      by (change (x :: l) with ([x] ++ l); rewrite count_der_app; lia).
+    assert (E2 : count_der DFail d (x :: l) = 0)
+      by (change (x :: l) with ([x] ++ l); rewrite count_der_app; lia).
+    rewrite produced_cons, IH1, a. repeat split; auto.
+    unfold nraised in *. simpl. rewrite b. exact IH2.
+Qed.
+
+Lemma VC_irrel : forall s s' d l,
+  VC s d -> spec s' d = spec s d -> val s' d = val s d -> log s' = l ++ log s ->
+  Forall (irrel (spec s) d) l -> VC s' d.
+Proof.
+  intros s s' d l Hv Hsp Hval Hlog Hl.
+  destruct (irrel_list _ _ _ Hl) as (a & b & c & e).
+  eapply VC_step; eauto; rewrite ?a, ?b, ?Hval; simpl; auto.
+  - now rewrite orb_false_r.
+  - now rewrite orb_false_r.
+  - rewrite e. now destruct (ev_fail (spec s d)).
+Qed.
+
+Definition silent (x : entry) : Prop :=
+  match x with LH _ _ | LG _ _ _ | LFD DExc _ | LFD DFail _ => False | _ => True end.
+
+Lemma silent_irrel : forall sp d x, silent x -> irrel sp d x.
+Proof. intros sp d [ | | |[] ?| | ]; simpl; intros H; try contradiction; repeat split; auto. Qed.
+
+Lemma about_irrel : forall sp e0 d x, about e0 x -> d <> e0 -> irrel sp d x.
+Proof.
+  intros sp e0 d x Ha Hne. destruct x; simpl in *; subst;
+    repeat split; simpl; auto;
+    try (destruct (Nat.eqb e0 d) eqn:E; [apply Nat.eqb_eq in E; congruence | auto]).
+  all: rewrite ?andb_false_r; auto.
+Qed.
+
+Lemma LF_silent : forall n l, Forall (is_LF_from n) l -> Forall silent l.
+Proof. intros n l H. eapply Forall_impl; [|exact H]. intros x (d & -> & _). exact I. Qed.
+
+(* ------------------------------------------------------------------ operations on the event being processed *)
+
+(* [vop e l s s']: a frame step that leaves phase / waitingHandlers of e and the task list alone
+   (only e's Value, the log and newly fired events change) *)
+Record vop (e : nat) (l : list entry) (s s' : st) : Prop := {
+  v_fr : fr e l s s';
+  v_phase : phase s' e = phase s e;
+  v_wait : waiting s' e = waiting s e;
+  v_tasks : tasks s' = tasks s
+}.
+
+Lemma vop_trans : forall e l1 l2 s s1 s2,
+  e < next s -> vop e l1 s s1 -> vop e l2 s1 s2 -> vop e (l2 ++ l1) s s2.
+Proof.
+  intros e l1 l2 s s1 s2 He [f1 p1 w1 t1] [f2 p2 w2 t2]. split; try congruence.
+  eapply fr_trans; eauto.
+Qed.
+
+Lemma vop_ext : forall e l s s', e < next s -> ext l s s' -> Forall (about e) l -> vop e l s s'.
+Proof.
+  intros e l s s' He Hx Ha. split.
+  - now apply ext_fr.
+  - eapply ext_phase; eauto.
+  - eapply ext_wait; eauto.
+  - eapply x_tasks; eauto.
+Qed.
+
+Lemma vop_set_val : forall e v s, vop e [] s (set_val e v s).
+Proof. intros. split; auto. apply fr_set_val. Qed.
+
+Lemma vop_add_log : forall e x s, about e x -> vop e [x] s (add_log x s).
+Proof. intros. split; auto. now apply fr_add_log. Qed.
+
+Lemma fr_spec : forall e l s s' d, fr e l s s' -> d < next s -> spec s' d = spec s d.
+Proof. intros e l s s' d H Hd. now destruct (f_spec _ _ _ _ H d Hd). Qed.
+
+Lemma LF_about : forall e n l, Forall (is_LF_from n) l -> Forall (about e) l.
+Proof. intros e n l H. eapply Forall_impl; [|exact H]. intros x (d & -> & _). exact I. Qed.
+
+Definition nosucc (x : entry) : Prop := match x with LFD DSucc _ => False | _ => True end.
+
+Lemma LF_nosucc : forall n l, Forall (is_LF_from n) l -> Forall nosucc l.
+Proof. intros n l H. eapply Forall_impl; [|exact H]. intros x (d & -> & _). exact I. Qed.
+
+(* log entry + fired children: the common prefix of a plain handler and of a generator segment *)
+Lemma enter_vop : forall e x kids s,
+  e < next s -> about e x ->
+  exists lk, vop e (lk ++ [x]) s (fire_all kids (add_log x s)) /\ Forall (is_LF_from (next s)) lk /\
+             val (fire_all kids (add_log x s)) e = val s e /\
+             next s <= next (fire_all kids (add_log x s)).
+Proof.
+  intros e x kids s He Ha.
+  destruct (ext_fire_all kids (add_log x s)) as (lk & Hx & Hl).
+  exists lk. split; [|split; [|split]].
+  - eapply vop_trans; [exact He | apply vop_add_log; exact Ha |].
+    apply vop_ext; auto. eapply LF_about; eauto.
+  - exact Hl.
+  - now rewrite (ext_val _ _ _ e Hx).
+  - apply (x_next _ _ _ Hx).
+Qed.
+
+Definition setv (v : value) (x : pyval) : value :=
+  {| vv := set_py (vv v) (vresult v) x; vresult := vresult v || negb (is_none x);
+     verrors := verrors v; vpromise := vpromise v |}.
+Definition seterr (v : value) : value :=
+  {| vv := vv v; vresult := vresult v; verrors := true; vpromise := vpromise v |}.
+
+Lemma inform_vop : forall f e s, e < next s ->
+  exists li, vop e li s (inform f e s) /\ (li = [] \/ li = [LFD DVC e]) /\ val (inform f e s) e = val s e.
+Proof.
+  intros f e s He. destruct (ext_inform f e s) as (li & Hx & Hli).
+  exists li. split; [|split]; auto.
+  - apply vop_ext; auto. destruct Hli as [-> | ->]; repeat constructor.
+  - eapply ext_val; eauto.
+Qed.
+
+Lemma set_value_vop : forall e x s, e < next s -> is_none x = false ->
+  exists li, vop e li s (set_value e x s) /\ (li = [] \/ li = [LFD DVC e]) /\
+             val (set_value e x s) e = setv (val s e) x.
+Proof.
+  intros e x s He Hx. unfold set_value. rewrite Hx.
+  match goal with |- context [inform false e ?s1] => set (s1' := s1) end.
+  destruct (inform_vop false e s1' He) as (li & Hv & Hli & Hval).
+  exists li. split; [|split]; auto.
+  - rewrite <- (app_nil_r li). eapply vop_trans; [exact He | apply vop_set_val | exact Hv].
+  - rewrite Hval. unfold s1', setv. simpl. rewrite upd_same, Hx. reflexivity.
+Qed.
+
+Definition nonh (x : entry) : Prop := match x with LH _ _ | LG _ _ _ => False | _ => True end.
+
+Lemma nonh_list : forall sp e l, Forall nonh l -> produced sp e l = [] /\ nraised sp e l = 0.
+Proof.
+  induction 1 as [|x l Hx _ (IH1 & IH2)]; [split; reflexivity|].
+  rewrite produced_cons, IH1. unfold nraised in *. simpl.
+  destruct x; simpl in *; try contradiction; auto.
+Qed.
+
+Lemma delta_one : forall sp e A x, Forall nonh A ->
+  produced sp e (A ++ [x]) = contrib sp e x /\
+  nraised sp e (A ++ [x]) = (if raises sp e x then 1 else 0).
+Proof.
+  intros sp e A x HA. destruct (nonh_list sp e A HA) as (a & b).
+  rewrite produced_app, produced_one, a, app_nil_r, nraised_app, b. split; auto.
+  unfold nraised. simpl. now destruct (raises sp e x).
+Qed.
+
+Lemma LF_nonh : forall n l, Forall (is_LF_from n) l -> Forall nonh l.
+Proof. intros n l H. eapply Forall_impl; [|exact H]. intros x (d & -> & _). exact I. Qed.
+
+Lemma count_der_LF : forall k e n l, Forall (is_LF_from n) l -> count_der k e l = 0.
+Proof. induction 1 as [|x l (d & -> & _) _ IH]; simpl; auto. Qed.
+
+Lemma li_facts : forall e li, li = [] \/ li = [LFD DVC e] ->
+  Forall nonh li /\ Forall nosucc li /\ Forall (about e) li /\
+  count_der DExc e li = 0 /\ count_der DFail e li = 0 /\ count_der DSucc e li = 0.
+Proof. intros e li [-> | ->]; repeat split; repeat constructor. Qed.
+
+Lemma fb_facts : forall e fl,
+  Forall nonh (fb_log fl e) /\ Forall nosucc (fb_log fl e) /\ Forall (about e) (fb_log fl e) /\
+  count_der DExc e (fb_log fl e) = 1 /\ count_der DFail e (fb_log fl e) = (if fl then 1 else 0) /\
+  count_der DSucc e (fb_log fl e) = 0.
+Proof.
+  intros e []; unfold fb_log; simpl; rewrite ?Nat.eqb_refl; repeat split; repeat constructor.
+Qed.
+
+(* ------------------------------------------------------------------ one plain handler of the dispatcher pass *)
+
+Ltac fa := repeat (apply Forall_app; split); auto.
+
+Lemma plain_unit : forall e i kids r err s,
+  e < next s -> nth_error (ev_hs (spec s e)) i = Some (HP kids r) ->
+  exists l, vop e l s (fst (run_handler e i (HP kids r) err s)) /\ Forall nosucc l /\ In (LH e i) l /\
+    (VC s e -> VC (fst (run_handler e i (HP kids r) err s)) e) /\
+    ((err = true -> verrors (val s e) = true) ->
+     snd (run_handler e i (HP kids r) err s) = true ->
+     verrors (val (fst (run_handler e i (HP kids r) err s)) e) = true) /\
+    (verrors (val s e) = true -> verrors (val (fst (run_handler e i (HP kids r) err s)) e) = true).
+Proof.
+  intros e i kids r err s He Hnth.
+  destruct (enter_vop e (LH e i) kids s He eq_refl) as (lk & Hv1 & Hlk & Hval1 & Hn1).
+  set (s2 := fire_all kids (add_log (LH e i) s)) in *.
+  assert (He2 : e < next s2) by lia.
+  assert (Hc : contrib (spec s) e (LH e i) = match r with RRet v => nonnone v | RRaise => [PErr] end).
+  { simpl. rewrite Nat.eqb_refl, Hnth. now destruct r. }
+  assert (Hr : raises (spec s) e (LH e i) = match r with RRet _ => false | RRaise => true end).
+  { simpl. rewrite Nat.eqb_refl, Hnth. now destruct r. }
+  pose proof (LF_nonh _ _ Hlk) as Hlk1. pose proof (LF_nosucc _ _ Hlk) as Hlk2.
+  pose proof (count_der_LF DExc e _ _ Hlk) as Hlk3. pose proof (count_der_LF DFail e _ _ Hlk) as Hlk4.
+  destruct r as [v|]; simpl run_handler.
+  - destruct (is_none v) eqn:Hnone; simpl fst; simpl snd; fold s2.
+    + (* return None *)
+      exists (lk ++ [LH e i]). split; [exact Hv1|]. split; [fa; repeat constructor|].
+      split; [apply in_or_app; right; left; reflexivity|]. split; [|split].
+      * intros Hvc. destruct (delta_one (spec s) e lk (LH e i) Hlk1) as (a & b).
+        eapply VC_step with (l := lk ++ [LH e i]); eauto.
+        -- apply (fr_spec _ _ _ _ e (v_fr _ _ _ _ Hv1) He).
+        -- apply (f_log _ _ _ _ (v_fr _ _ _ _ Hv1)).
+        -- rewrite a, Hc, Hval1. unfold nonnone. now rewrite Hnone.
+        -- rewrite a, Hc, Hval1. unfold nonnone. rewrite Hnone. simpl. now rewrite orb_false_r.
+        -- rewrite b, Hr, Hval1. simpl. now rewrite orb_false_r.
+        -- rewrite b, Hr, count_der_app, Hlk3. reflexivity.
+        -- rewrite b, Hr, count_der_app, Hlk4. simpl. now destruct (ev_fail (spec s e)).
+      * intros Herr E. rewrite Hval1. auto.
+      * rewrite Hval1. auto.
+    + (* return a value *)
+      destruct (set_value_vop e v s2 He2 Hnone) as (li & Hv2 & Hli & Hval2).
+      destruct (li_facts e li Hli) as (q1 & q2 & q3 & q4 & q5 & q6).
+      exists (li ++ lk ++ [LH e i]). split; [eapply vop_trans; eauto|].
+      split; [fa; repeat constructor|].
+      split; [apply in_or_app; right; apply in_or_app; right; left; reflexivity|]. split; [|split].
+      * intros Hvc.
+        destruct (delta_one (spec s) e (li ++ lk) (LH e i) ltac:(fa)) as (a & b).
+        assert (Hvt : vop e ((li ++ lk) ++ [LH e i]) s (set_value e v s2))
+          by (rewrite <- app_assoc; eapply vop_trans; eauto).
+        eapply VC_step with (l := (li ++ lk) ++ [LH e i]); eauto.
+        -- apply (fr_spec _ _ _ _ e (v_fr _ _ _ _ Hvt) He).
+        -- apply (f_log _ _ _ _ (v_fr _ _ _ _ Hvt)).
+        -- rewrite a, Hc, Hval2, Hval1. unfold nonnone. rewrite Hnone. reflexivity.
+        -- rewrite a, Hc, Hval2, Hval1. unfold nonnone. rewrite Hnone. simpl. now rewrite Hnone.
+        -- rewrite b, Hr, Hval2, Hval1. simpl. now rewrite orb_false_r.
+        -- rewrite b, Hr, !count_der_app, Hlk3, q4. reflexivity.
+        -- rewrite b, Hr, !count_der_app, Hlk4, q5. simpl. now destruct (ev_fail (spec s e)).
+      * intros Herr E. rewrite Hval2, Hval1. simpl. auto.
+      * rewrite Hval2, Hval1. simpl. auto.
+  - (* raise *)
+    simpl fst; simpl snd; fold s2.
+    set (s3 := set_errors e s2).
+    assert (Hv3 : vop e [] s2 s3) by apply vop_set_val.
+    assert (Hval3 : val s3 e = seterr (val s e)).
+    { unfold s3, set_errors. simpl. rewrite upd_same, Hval1. reflexivity. }
+    assert (He3 : e < next s3) by (simpl; lia).
+    assert (Hsp3 : spec s3 e = spec s e).
+    { simpl. apply (fr_spec _ _ _ _ e (v_fr _ _ _ _ Hv1) He). }
+    pose proof (ext_raise_feedback e s3) as Hx4. rewrite Hsp3 in Hx4.
+    set (s4 := raise_feedback e s3) in *.
+    destruct (fb_facts e (ev_fail (spec s e))) as (b1 & b2 & b3 & b4 & b5 & b6).
+    assert (Hv4 : vop e (fb_log (ev_fail (spec s e)) e) s3 s4) by (apply vop_ext; auto).
+    assert (Hval4 : val s4 e = seterr (val s e)) by (rewrite (ext_val _ _ _ e Hx4 He3); auto).
+    assert (He4 : e < next s4) by (pose proof (x_next _ _ _ Hx4); lia).
+    destruct (set_value_vop e PErr s4 He4 eq_refl) as (li & Hv5 & Hli & Hval5).
+    destruct (li_facts e li Hli) as (q1 & q2 & q3 & q4 & q5 & q6).
+    assert (Hvt : vop e (((li ++ fb_log (ev_fail (spec s e)) e) ++ lk) ++ [LH e i]) s (set_value e PErr s4)).
+    { rewrite <- !app_assoc.
+      eapply vop_trans; [exact He | | exact Hv5].
+      eapply vop_trans; [exact He | | exact Hv4].
+      change (lk ++ [LH e i]) with ([] ++ lk ++ [LH e i]).
+      eapply vop_trans; [exact He | exact Hv1 | exact Hv3]. }
+    eexists. split; [exact Hvt|]. split; [fa; repeat constructor|].
+    split; [apply in_or_app; right; left; reflexivity|]. split; [|split].
+    + intros Hvc.
+      destruct (delta_one (spec s) e ((li ++ fb_log (ev_fail (spec s e)) e) ++ lk) (LH e i) ltac:(fa)) as (a & b).
+      eapply VC_step; eauto.
+      * apply (fr_spec _ _ _ _ e (v_fr _ _ _ _ Hvt) He).
+      * apply (f_log _ _ _ _ (v_fr _ _ _ _ Hvt)).
+      * rewrite a, Hc, Hval5, Hval4. reflexivity.
+      * rewrite a, Hc, Hval5, Hval4. reflexivity.
+      * rewrite b, Hr, Hval5, Hval4. simpl. now rewrite orb_true_r.
+      * rewrite b, Hr, !count_der_app, Hlk3, q4, b4. reflexivity.
+      * rewrite b, Hr, !count_der_app, Hlk4, q5, b5. simpl. destruct (ev_fail (spec s e)); reflexivity.
+    + intros _ _. rewrite Hval5, Hval4. reflexivity.
+    + intros _. rewrite Hval5, Hval4. reflexivity.
+Qed.
+
+(* ------------------------------------------------------------------ summaries of handler activity on e *)
+
+Record dsum (e : nat) (l : list entry) (tnew : list task) (s s' : st) : Prop := {
+  d_fr : fr e l s s';
+  d_nosucc : Forall nosucc l;
+  d_phase : phase s' e = phase s e;
+  d_tasks : tasks s' = tasks s ++ tnew;
+  d_wait : waiting s' e = waiting s e + length tnew;
+  d_tev : Forall (fun t => tev t = e) tnew;
+  d_vc : VC s e -> VC s' e;
+  d_mono : verrors (val s e) = true -> verrors (val s' e) = true
+}.
+
+Lemma dsum_trans : forall e l1 l2 t1 t2 s s1 s2,
+  e < next s -> dsum e l1 t1 s s1 -> dsum e l2 t2 s1 s2 -> dsum e (l2 ++ l1) (t1 ++ t2) s s2.
+Proof.
+  intros e l1 l2 t1 t2 s s1 s2 He [a1 a2 a3 a4 a5 a6 a7 a8] [b1 b2 b3 b4 b5 b6 b7 b8]. split; auto.
+  - eapply fr_trans; eauto.
+  - apply Forall_app; auto.
+  - congruence.
+  - rewrite b4, a4. now rewrite app_assoc.
+  - rewrite b5, a5, app_length. lia.
+  - apply Forall_app; auto.
+Qed.
+
+Lemma dsum_vop : forall e l s s',
+  vop e l s s' -> Forall nosucc l -> (VC s e -> VC s' e) ->
+  (verrors (val s e) = true -> verrors (val s' e) = true) -> dsum e l [] s s'.
+Proof.
+  intros e l s s' [f p w t] Hn Hvc Hm. split; auto; try (now rewrite app_nil_r); try (simpl; lia).
+Qed.
+
+Lemma dsum_refl : forall e s, dsum e [] [] s s.
+Proof.
+  intros. split; auto; try apply fr_refl; try (now rewrite app_nil_r); try (simpl; lia).
+Qed.
+
+Lemma VC_same : forall s s' e,
+  spec s' e = spec s e -> log s' = log s -> vv (val s' e) = vv (val s e) ->
+  vresult (val s' e) = vresult (val s e) -> verrors (val s' e) = verrors (val s e) -> VC s e -> VC s' e.
+Proof.
+  intros s s' e Hsp Hl H1 H2 H3 [v1 v2 v3 v4 v5]. split; rewrite ?Hl, ?H1, ?H2, ?H3, ?Hsp; auto;
+    rewrite ?(produced_sp (spec s) (spec s')), ?(nraised_sp (spec s) (spec s')); auto.
+Qed.
+
+Lemma add_task_dsum : forall e i s,
+  dsum e [] [{| tev := e; thd := i; tk := 0 |}] s (add_task e i s).
+Proof.
+  intros. unfold add_task, set_promise. split.
+  - split; simpl; auto.
+    + intros d Hd Hne. upds. auto.
+    + intros d Hd. exfalso. lia.
+    + rewrite Nat.sub_diag. simpl. now rewrite app_nil_r.
+  - constructor.
+  - reflexivity.
+  - reflexivity.
+  - simpl. rewrite upd_same. lia.
+  - repeat constructor.
+  - intros Hvc. apply (VC_same s); auto; simpl; rewrite ?upd_same; reflexivity.
+  - simpl. now rewrite !upd_same.
+Qed.
+
+Lemma run_handlers_sum : forall e hs i err s pre,
+  e < next s -> ev_hs (spec s e) = pre ++ hs -> length pre = i ->
+  exists l tnew, dsum e l tnew s (fst (run_handlers e i hs err s)) /\
+    ((err = true -> verrors (val s e) = true) ->
+     snd (run_handlers e i hs err s) = true -> verrors (val (fst (run_handlers e i hs err s)) e) = true).
+Proof.
+  intros e hs. induction hs as [|h r IH]; intros i err s pre He Hpre Hlen.
+  - exists [], []. split; [apply dsum_refl | simpl; auto].
+  - assert (Hnth : nth_error (ev_hs (spec s e)) i = Some h).
+    { rewrite Hpre, nth_error_app2 by lia. now rewrite <- Hlen, Nat.sub_diag. }
+    simpl run_handlers.
+    destruct (run_handler e i h err s) as [s1 err1] eqn:Hrun.
+    assert (Hunit : exists l1 t1, dsum e l1 t1 s s1 /\
+              ((err = true -> verrors (val s e) = true) -> err1 = true -> verrors (val s1 e) = true)).
+    { destruct h as [kids rr | ys lk gr].
+      - destruct (plain_unit e i kids rr err s He Hnth) as (l & Hv & Hn & _ & Hvc & Herr & Hm).
+        rewrite Hrun in *. simpl in *. exists l, []. split; auto. now apply dsum_vop.
+      - simpl in Hrun. inversion Hrun; subst. eexists _, _. split; [apply add_task_dsum|].
+        intros Herr E. specialize (Herr E). unfold add_task, set_promise. simpl. now rewrite !upd_same. }
+    destruct Hunit as (l1 & t1 & Hd1 & Herr1).
+    assert (He1 : e < next s1) by (pose proof (f_next _ _ _ _ (d_fr _ _ _ _ _ Hd1)); lia).
+    assert (Hsp1 : spec s1 e = spec s e) by (apply (fr_spec _ _ _ _ e (d_fr _ _ _ _ _ Hd1) He)).
+    destruct (IH (S i) err1 s1 (pre ++ [h]) He1) as (l2 & t2 & Hd2 & Herr2).
+    { rewrite Hsp1, Hpre, <- app_assoc. reflexivity. }
+    { rewrite app_length. simpl. lia. }
+    exists (l2 ++ l1), (t1 ++ t2). split.
+    + eapply dsum_trans; eauto.
+    + intros Herr E. apply Herr2; auto.
+Qed.
+
+(* ------------------------------------------------------------------ _eventDone, observers *)
+
+Lemma vop_refl : forall e s, vop e [] s s.
+Proof. intros. split; auto. apply fr_refl. Qed.
+
+Lemma log_all_vop : forall e xs s, e < next s -> Forall (about e) xs -> Forall silent xs -> Forall nosucc xs ->
+  exists l, vop e l s (log_all xs s) /\ Forall silent l /\ Forall nosucc l /\ val (log_all xs s) e = val s e.
+Proof.
+  intros e xs. induction xs as [|x r IH]; intros s He Ha Hs Hn; simpl.
+  - exists []. split; [apply vop_refl | auto].
+  - inversion Ha; inversion Hs; inversion Hn; subst.
+    destruct (IH (add_log x s)) as (l & Hv & Hsl & Hnl & Hval); auto.
+    exists (l ++ [x]). split; [|split; [|split]]; auto.
+    + eapply vop_trans; [exact He | apply vop_add_log; auto | exact Hv].
+    + apply Forall_app; auto.
+    + apply Forall_app; auto.
+Qed.
+
+Definition succ_log (e : nat) (b : bool) : list entry := if b then [LFD DSucc e] else [].
+
+Lemma event_done_sum : forall e err s,
+  e < next s -> (err = true -> verrors (val s e) = true) ->
+  fr e (succ_log e (Nat.eqb (waiting s e) 0 && negb (verrors (val s e)) && ev_succ (spec s e)))
+     s (event_done e err s) /\
+  val (event_done e err s) e = val s e /\
+  waiting (event_done e err s) e = waiting s e /\
+  tasks (event_done e err s) = tasks s /\
+  phase (event_done e err s) e = (if Nat.eqb (waiting s e) 0 then PFin else phase s e).
+Proof.
+  intros e err s He Herr. unfold event_done. cbv zeta.
+  destruct (Nat.eqb (waiting s e) 0) eqn:Hw; rewrite ?andb_true_l, ?andb_false_l.
+  - assert (Hc : negb err && negb (verrors (val (set_phase e PFin s) e)) && ev_succ (spec (set_phase e PFin s) e)
+                 = negb (verrors (val s e)) && ev_succ (spec s e)).
+    { simpl. destruct err; simpl; auto. now rewrite Herr. }
+    rewrite Hc. destruct (negb (verrors (val s e)) && ev_succ (spec s e)); unfold succ_log.
+    + pose proof (ext_fire_der DSucc e (set_phase e PFin s)) as Hx.
+      assert (He' : e < next (set_phase e PFin s)) by (simpl; lia).
+      split; [|split; [|split; [|split]]].
+      * change [LFD DSucc e] with ([LFD DSucc e] ++ []).
+        eapply fr_trans; [exact He | apply fr_set_phase | apply ext_fr; [exact Hx | repeat constructor]].
+      * rewrite (ext_val _ _ _ e Hx He'). reflexivity.
+      * rewrite (ext_wait _ _ _ e Hx He'). reflexivity.
+      * rewrite (x_tasks _ _ _ Hx). reflexivity.
+      * rewrite (ext_phase _ _ _ e Hx He'). simpl. now rewrite upd_same.
+    + split; [apply fr_set_phase|]. simpl. rewrite upd_same. auto.
+  - unfold succ_log. split; [apply fr_refl | auto].
+Qed.
+
+(* ------------------------------------------------------------------ the invariant *)
+
+Definition ctasks (d : nat) (ts : list task) : nat := length (filter (fun t => Nat.eqb (tev t) d) ts).
+Definition is_fin (p : phaseT) : bool := match p with PFin => true | _ => false end.
+
+Definition lbound (n : nat) (x : entry) : Prop :=
+  match x with LH e _ | LG e _ _ | LFD _ e => e < n | _ => True end.
+
+Definition succ_formula (s : st) (d : nat) : bool :=
+  is_fin (phase s d) && negb (verrors (val s d)) && ev_succ (spec s d).
+
+(* [PInv None] is the invariant between steps; [PInv (Some e)] is its form while event e is being
+   dispatched (e has left the queue but is still marked queued) *)
+Record PInv (cur : option nat) (s : st) : Prop := {
+  i_q1 : forall d, In d (queue s) -> d < next s /\ phase s d = PQueued;
+  i_q2 : NoDup (queue s);
+  i_q3 : forall d, d < next s -> Some d <> cur -> phase s d = PQueued -> In d (queue s);
+  i_t : forall t, In t (tasks s) -> tev t < next s /\ phase s (tev t) = PActive;
+  i_w : forall d, d < next s -> waiting s d = ctasks d (tasks s);
+  i_a : forall d, d < next s -> phase s d = PActive -> 0 < waiting s d;
+  i_lb : Forall (lbound (next s)) (log s);
+  i_vc : forall d, d < next s -> VC s d;
+  i_s : forall d, d < next s -> kind s d = KUser ->
+        count_der DSucc d (log s) = (if succ_formula s d then 1 else 0);
+  i_sl : forall d l1 l2, d < next s -> kind s d = KUser -> log s = l1 ++ LFD DSucc d :: l2 ->
+         forall x, In x l1 -> ~ hentry x d
+}.
+Definition Inv := PInv None.
+
+(* what one step does to the event e it works on *)
+Definition ssum (e : nat) (s s' : st) : Prop :=
+  exists l0 b,
+    fr e (succ_log e b ++ l0) s s' /\ Forall nosucc l0 /\
+    (kind s e = KUser -> b = succ_formula s' e) /\
+    (VC s e -> VC s' e) /\
+    waiting s' e = ctasks e (tasks s') /\
+    (forall d, d <> e -> ctasks d (tasks s') = ctasks d (tasks s)) /\
+    (forall t, In t (tasks s') -> tev t = e \/ In t (tasks s)) /\
+    phase s' e = (if Nat.eqb (waiting s' e) 0 then PFin else PActive).
+
+Lemma nosucc_count : forall d l, Forall nosucc l -> count_der DSucc d l = 0.
+Proof.
+  induction 1 as [|x l Hx _ IH]; simpl; auto.
+  destruct x; auto. destruct k; simpl in *; try contradiction; auto.
+Qed.
+
+Lemma about_count : forall k e0 d l, Forall (about e0) l -> d <> e0 -> count_der k d l = 0.
+Proof.
+  induction 1 as [|x l Hx _ IH]; intros Hne; simpl; auto.
+  destruct x; auto. simpl in Hx. subst.
+  destruct (Nat.eqb e0 d) eqn:E; [apply Nat.eqb_eq in E; congruence|].
+  rewrite andb_false_r. simpl. auto.
+Qed.
+
+Lemma succ_log_about : forall e b, Forall (about e) (succ_log e b).
+Proof. intros e []; repeat constructor. Qed.
+
+Lemma ctasks_pos : forall d t ts, In t ts -> tev t = d -> 0 < ctasks d ts.
+Proof.
+  intros d t ts Hin Ht. unfold ctasks.
+  assert (In t (filter (fun t => Nat.eqb (tev t) d) ts)).
+  { apply filter_In. split; auto. now apply Nat.eqb_eq. }
+  destruct (filter _ ts); simpl in *; [contradiction | lia].
+Qed.
+
+Lemma in_split_app : forall (x : entry) l a l1 l2,
+  l ++ a = l1 ++ x :: l2 -> ~ In x l ->
+  exists l1', l1 = l ++ l1' /\ a = l1' ++ x :: l2.
+Proof.
+  induction l as [|y l IH]; intros a l1 l2 H Hn; simpl in *.
+  - exists l1. auto.
+  - destruct l1 as [|z l1]; simpl in H; inversion H; subst.
+    + exfalso. apply Hn. auto.
+    + destruct (IH a l1 l2 H2) as (l1' & -> & ->); [intros Hi; apply Hn; auto|].
+      exists l1'. auto.
+Qed.
+
+Lemma ctasks_zero : forall d ts, (forall t, In t ts -> tev t <> d) -> ctasks d ts = 0.
+Proof.
+  intros d ts. unfold ctasks. induction ts as [|t0 ts IH]; intros H; simpl; auto.
+  destruct (Nat.eqb (tev t0) d) eqn:E.
+  - apply Nat.eqb_eq in E. exfalso. apply (H t0); simpl; auto.
+  - apply IH. intros t1 H1. apply H. simpl; auto.
+Qed.
+
+Lemma nodup_app : forall (a b : list nat),
+  NoDup a -> NoDup b -> (forall x, In x a -> ~ In x b) -> NoDup (a ++ b).
+Proof.
+  induction a as [|x a IH]; intros b Ha Hb H; simpl; auto.
+  inversion Ha; subst. constructor.
+  - intros Hi. apply in_app_or in Hi. destruct Hi; [contradiction | apply (H x); simpl; auto].
+  - apply IH; auto. intros y Hy. apply H. simpl; auto.
+Qed.
+
+Lemma step_inv : forall e s s',
+  PInv (Some e) s -> e < next s -> ~ In e (queue s) -> phase s e <> PFin ->
+  ssum e s s' -> Inv s'.
+Proof.
+  intros e s s' [q1 q2 q3 t w a lb vc sc sl] He Hnq Hnf
+         (l0 & b & Hfr & Hns & Hb & Hvc & Hw & Hct & Htk & Hph).
+  pose proof Hfr as [f1 f2 f3 f4 f5 f6 f7].
+  assert (Hab0 : Forall (about e) l0) by (apply Forall_app in f7; tauto).
+  assert (Hwpos : forall t0, In t0 (tasks s') -> tev t0 = e -> phase s' e = PActive).
+  { intros t0 Hin Ht. rewrite Hph, Hw. pose proof (ctasks_pos e t0 _ Hin Ht).
+    destruct (Nat.eqb (ctasks e (tasks s')) 0) eqn:E; auto. apply Nat.eqb_eq in E. lia. }
+  split.
+  - (* q1 *) intros d Hd. rewrite f5 in Hd. apply in_app_or in Hd. destruct Hd as [Hd|Hd].
+    + destruct (q1 d Hd) as (Hlt & Hp). assert (d <> e) by (intros ->; contradiction).
+      destruct (f3 d Hlt H) as (_ & _ & Hp'). split; [lia | congruence].
+    + apply in_seq in Hd. split; [lia|]. apply f4. lia.
+  - (* q2 *) rewrite f5. apply nodup_app; auto; [apply seq_NoDup|].
+    intros x Hx Hs. apply in_seq in Hs. destruct (q1 x Hx). lia.
+  - (* q3 *) intros d Hd _ Hp. rewrite f5. apply in_or_app.
+    destruct (Nat.lt_ge_cases d (next s)) as [Hlt|Hge].
+    + left. destruct (Nat.eq_dec d e) as [->|Hne].
+      * exfalso. rewrite Hph in Hp. destruct (Nat.eqb (waiting s' e) 0); discriminate.
+      * destruct (f3 d Hlt Hne) as (_ & _ & Hp'). apply q3; auto; congruence.
+    + right. apply in_seq. lia.
+  - (* t *) intros t0 Hin. destruct (Htk t0 Hin) as [Ht|Hold].
+    + split; [lia|]. rewrite Ht. eapply Hwpos; eauto.
+    + destruct (t t0 Hold) as (Hlt & Hp). split; [lia|].
+      destruct (Nat.eq_dec (tev t0) e) as [Ht|Hne]; [rewrite Ht; eapply Hwpos; eauto|].
+      destruct (f3 _ Hlt Hne) as (_ & _ & Hp'). congruence.
+  - (* w *) intros d Hd. destruct (Nat.eq_dec d e) as [->|Hne]; auto.
+    rewrite (Hct d Hne). destruct (Nat.lt_ge_cases d (next s)) as [Hlt|Hge].
+    + destruct (f3 d Hlt Hne) as (_ & Hw' & _). rewrite Hw'. auto.
+    + destruct (f4 d ltac:(lia)) as (_ & Hw' & _). rewrite Hw'.
+      symmetry. apply ctasks_zero. intros t0 Hin Heq. destruct (t t0 Hin). lia.
+  - (* a *) intros d Hd Hp. destruct (Nat.eq_dec d e) as [->|Hne].
+    + rewrite Hph in Hp. destruct (Nat.eqb (waiting s' e) 0) eqn:E; [discriminate|].
+      apply Nat.eqb_neq in E. lia.
+    + destruct (Nat.lt_ge_cases d (next s)) as [Hlt|Hge].
+      * destruct (f3 d Hlt Hne) as (_ & Hw' & Hp'). rewrite Hw'. apply a; auto. congruence.
+      * destruct (f4 d ltac:(lia)) as (Hq & _ & _). congruence.
+  - (* lb *) rewrite f6. apply Forall_app. split.
+    + eapply Forall_impl; [|exact f7]. intros x Hx. destruct x; simpl in *; subst; auto; lia.
+    + eapply Forall_impl; [|exact lb]. intros x Hx. destruct x; simpl in *; auto; lia.
+  - (* vc *) intros d Hd. destruct (Nat.eq_dec d e) as [->|Hne]; auto.
+    destruct (Nat.lt_ge_cases d (next s)) as [Hlt|Hge].
+    + destruct (f3 d Hlt Hne) as (Hv' & _ & _). destruct (f2 d Hlt) as (Hsp & _).
+      eapply VC_irrel; eauto.
+      eapply Forall_impl; [|exact f7]. intros x Hx. eapply about_irrel; eauto.
+    + destruct (f4 d ltac:(lia)) as (_ & _ & Hv').
+      assert (Hl : Forall (irrel (spec s') d) (log s')).
+      { rewrite f6. apply Forall_app. split.
+        - eapply Forall_impl; [|exact f7]. intros x Hx. eapply about_irrel; eauto.
+        - eapply Forall_impl; [|exact lb]. intros x Hx.
+          destruct x; simpl in Hx; try (apply silent_irrel; exact I);
+            apply (about_irrel _ e0); simpl; auto; lia. }
+      destruct (irrel_list _ _ _ Hl) as (p1 & p2 & p3 & p4).
+      split; rewrite ?Hv', ?p1, ?p2, ?p3, ?p4; simpl; auto. now destruct (ev_fail (spec s' d)).
+  - (* s *) intros d Hd Hk. rewrite f6, !count_der_app, (nosucc_count d l0 Hns).
+    destruct (Nat.eq_dec d e) as [->|Hne].
+    + destruct (f2 e He) as (Hsp & Hk'). rewrite Hk' in Hk. specialize (Hb Hk).
+      rewrite (sc e He Hk), <- Hb.
+      assert (Hz : succ_formula s e = false)
+        by (unfold succ_formula; destruct (phase s e); try congruence; reflexivity).
+      rewrite Hz. destruct b; simpl; rewrite ?Nat.eqb_refl; reflexivity.
+    + rewrite (about_count DSucc e d _ (succ_log_about e b) Hne). simpl.
+      destruct (Nat.lt_ge_cases d (next s)) as [Hlt|Hge].
+      * destruct (f3 d Hlt Hne) as (Hv' & _ & Hp'). destruct (f2 d Hlt) as (Hsp & Hk').
+        rewrite (sc d Hlt ltac:(congruence)). unfold succ_formula. now rewrite Hv', Hp', Hsp.
+      * destruct (f4 d ltac:(lia)) as (Hp' & _ & _). unfold succ_formula. rewrite Hp'. simpl.
+        assert (Hz : forall l, Forall (lbound (next s)) l -> count_der DSucc d l = 0).
+        { induction 1 as [|x l Hx _ IH]; simpl; auto. destruct x; auto. simpl in Hx.
+          destruct (Nat.eqb e0 d) eqn:E; [apply Nat.eqb_eq in E; lia|]. rewrite andb_false_r. auto. }
+        apply Hz; auto.
+  - (* sl *) intros d l1 l2 Hd Hk Hlog x Hx Hh. rewrite f6 in Hlog.
+    destruct (Nat.lt_ge_cases d (next s)) as [Hlt|Hge].
+    2:{ (* a new event has no success entry yet *)
+      assert (Hin : In (LFD DSucc d) (log s')) by (rewrite f6, Hlog; apply in_or_app; right; left; auto).
+      rewrite f6 in Hin. apply in_app_or in Hin. destruct Hin as [Hin|Hin].
+      - rewrite Forall_forall in f7. specialize (f7 _ Hin). simpl in f7. lia.
+      - rewrite Forall_forall in lb. specialize (lb _ Hin). simpl in lb. lia. }
+    destruct (f2 d Hlt) as (Hsp & Hk').
+    destruct (Nat.eq_dec d e) as [->|Hne].
+    + (* the event worked on: its success entry, if any, is the newest entry *)
+      assert (Hz : count_der DSucc e (log s) = 0).
+      { rewrite (sc e He ltac:(congruence)). unfold succ_formula.
+        destruct (phase s e); try congruence; reflexivity. }
+      assert (Hnot : ~ In (LFD DSucc e) (l0 ++ log s)).
+      { intros Hi. apply in_app_or in Hi. destruct Hi as [Hi|Hi].
+        - rewrite Forall_forall in Hns. apply (Hns _ Hi).
+        - clear - Hi Hz. induction (log s) as [|y r IH]; simpl in *; [contradiction|].
+          destruct Hi as [->|Hi]; [simpl in Hz; rewrite Nat.eqb_refl in Hz; simpl in Hz; lia|].
+          apply IH; auto. destruct y; auto. lia. }
+      destruct b; unfold succ_log in Hlog; simpl in Hlog.
+      * destruct l1 as [|z l1]; [contradiction|]. simpl in Hlog. inversion Hlog; subst.
+        apply Hnot. rewrite H1. apply in_or_app. right. left. auto.
+      * apply Hnot. rewrite Hlog. apply in_or_app. right. left. auto.
+    + (* another event: the new entries are not about it *)
+      rewrite <- app_assoc in Hlog.
+      assert (Hnin : ~ In (LFD DSucc d) (succ_log e b ++ l0)).
+      { intros Hi. rewrite Forall_forall in f7. specialize (f7 _ Hi). simpl in f7. congruence. }
+      rewrite app_assoc in Hlog.
+      destruct (in_split_app _ _ _ _ _ Hlog Hnin) as (l1' & -> & Hlog').
+      apply in_app_or in Hx. destruct Hx as [Hx|Hx].
+      * rewrite Forall_forall in f7. specialize (f7 _ Hx).
+        destruct x; simpl in *; try contradiction; congruence.
+      * eapply (sl d l1' l2); eauto. congruence.
+Qed.
+
+(* ------------------------------------------------------------------ the steps *)
+
+Lemma ctasks_app : forall d a b, ctasks d (a ++ b) = ctasks d a + ctasks d b.
+Proof. intros. unfold ctasks. now rewrite filter_app, app_length. Qed.
+
+Lemma ctasks_all : forall e ts, Forall (fun t => tev t = e) ts ->
+  ctasks e ts = length ts /\ forall d, d <> e -> ctasks d ts = 0.
+Proof.
+  induction 1 as [|t ts Ht _ (IH1 & IH2)]; [split; auto|]. unfold ctasks in *. simpl. rewrite Ht.
+  rewrite Nat.eqb_refl. simpl. split; [now rewrite IH1|].
+  intros d Hne. destruct (Nat.eqb e d) eqn:E; [apply Nat.eqb_eq in E; congruence | auto].
+Qed.
+
+Lemma VC_fr_silent : forall e l s s',
+  e < next s -> fr e l s s' -> val s' e = val s e -> Forall silent l -> VC s e -> VC s' e.
+Proof.
+  intros e l s s' He Hfr Hval Hs Hvc. apply (VC_irrel s s' e l); auto.
+  - eapply fr_spec; eauto.
+  - apply (f_log _ _ _ _ Hfr).
+  - eapply Forall_impl; [|exact Hs]. intros x Hx. now apply silent_irrel.
+Qed.
+
+Lemma succ_log_silent : forall e b, Forall silent (succ_log e b).
+Proof. intros e []; repeat constructor. Qed.
+
+Lemma dispatch_user_ssum : forall e s,
+  e < next s -> kind s e = KUser -> waiting s e = ctasks e (tasks s) ->
+  ssum e s (dispatch e s).
+Proof.
+  intros e s He Hk Hw. unfold dispatch. rewrite Hk.
+  set (s0 := set_phase e PActive s).
+  assert (He0 : e < next s0) by (simpl; lia).
+  destruct (run_handlers_sum e (ev_hs (spec s0 e)) 0 false s0 [] He0 eq_refl eq_refl)
+    as (l1 & t1 & Hd1 & Herr1).
+  destruct (run_handlers e 0 (ev_hs (spec s0 e)) false s0) as [s1 err] eqn:Hrun. simpl fst in *. simpl snd in *.
+  pose proof (d_fr _ _ _ _ _ Hd1) as Hf1.
+  assert (He1 : e < next s1) by (pose proof (f_next _ _ _ _ Hf1); lia).
+  set (xs := map (LDU e) (observers true (ev_both (spec s1 e)))).
+  assert (Hxs : Forall (about e) xs /\ Forall silent xs /\ Forall nosucc xs).
+  { unfold xs, observers. destruct (ev_both (spec s1 e)); simpl; repeat split; repeat constructor. }
+  destruct Hxs as (x1 & x2 & x3).
+  destruct (log_all_vop e xs s1 He1 x1 x2 x3) as (l2 & Hv2 & Hs2 & Hn2 & Hval2).
+  set (s2 := log_all xs s1) in *.
+  pose proof (v_fr _ _ _ _ Hv2) as Hf2.
+  assert (He2 : e < next s2) by (pose proof (f_next _ _ _ _ Hf2); lia).
+  assert (Herr2 : err = true -> verrors (val s2 e) = true).
+  { intros E. rewrite Hval2. apply Herr1; auto. discriminate. }
+  destruct (event_done_sum e err s2 He2 Herr2) as (Hf3 & Hval3 & Hw3 & Ht3 & Hp3).
+  set (s' := event_done e err s2) in *.
+  set (b := Nat.eqb (waiting s2 e) 0 && negb (verrors (val s2 e)) && ev_succ (spec s2 e)) in *.
+  assert (Hf0 : fr e [] s s0) by apply fr_set_phase.
+  assert (Hfa : fr e (succ_log e b ++ (l2 ++ l1 ++ [])) s s').
+  { eapply fr_trans; [exact He | | exact Hf3].
+    eapply fr_trans; [exact He | | exact Hf2].
+    eapply fr_trans; [exact He | exact Hf0 | exact Hf1]. }
+  assert (Htasks : tasks s' = tasks s ++ t1).
+  { rewrite Ht3. rewrite (v_tasks _ _ _ _ Hv2), (d_tasks _ _ _ _ _ Hd1). reflexivity. }
+  assert (Hwait : waiting s' e = waiting s e + length t1).
+  { rewrite Hw3. rewrite (v_wait _ _ _ _ Hv2), (d_wait _ _ _ _ _ Hd1). reflexivity. }
+  destruct (ctasks_all e t1 (d_tev _ _ _ _ _ Hd1)) as (Hc1 & Hc2).
+  exists (l2 ++ l1 ++ []), b. split; [exact Hfa|]. split.
+  { rewrite app_nil_r. apply Forall_app. split; auto. apply (d_nosucc _ _ _ _ _ Hd1). }
+  split.
+  { intros _. unfold b, succ_formula. rewrite Hp3, Hval3, (fr_spec _ _ _ _ e Hf3 He2).
+    assert (Hp2 : phase s2 e = PActive).
+    { rewrite (v_phase _ _ _ _ Hv2), (d_phase _ _ _ _ _ Hd1). simpl. now rewrite upd_same. }
+    rewrite Hp2. destruct (Nat.eqb (waiting s2 e) 0); reflexivity. }
+  split.
+  { intros Hvc. eapply (VC_fr_silent e _ s2 s'); eauto; [apply succ_log_silent|].
+    eapply (VC_fr_silent e _ s1 s2); eauto.
+    apply (d_vc _ _ _ _ _ Hd1). apply (VC_same s); auto. }
+  split; [rewrite Hwait, Htasks, ctasks_app, Hc1, Hw; reflexivity|].
+  split; [intros d Hne; rewrite Htasks, ctasks_app, (Hc2 d Hne); lia|].
+  split.
+  { intros t Hin. rewrite Htasks in Hin. apply in_app_or in Hin. destruct Hin as [Hin|Hin]; auto.
+    left. pose proof (d_tev _ _ _ _ _ Hd1) as Ht. rewrite Forall_forall in Ht. auto. }
+  rewrite Hp3, Hw3. rewrite (v_phase _ _ _ _ Hv2), (d_phase _ _ _ _ _ Hd1). simpl.
+  rewrite upd_same. reflexivity.
+Qed.
+
+(* a generator segment that yields: log entry, fired children, optional value *)
+Lemma yield_unit : forall e i k kids y s,
+  e < next s -> contrib (spec s) e (LG e i k) = nonnone y -> raises (spec s) e (LG e i k) = false ->
+  let s2 := fire_all kids (add_log (LG e i k) s) in
+  let s' := if is_none y then s2 else set_value e y s2 in
+  exists l, vop e l s s' /\ Forall nosucc l /\ In (LG e i k) l /\ (VC s e -> VC s' e).
+Proof.
+  intros e i k kids y s He Hc Hr s2 s'.
+  destruct (enter_vop e (LG e i k) kids s He eq_refl) as (lk & Hv1 & Hlk & Hval1 & Hn1).
+  fold s2 in Hv1, Hval1, Hn1.
+  assert (He2 : e < next s2) by lia.
+  pose proof (LF_nonh _ _ Hlk) as Hlk1. pose proof (LF_nosucc _ _ Hlk) as Hlk2.
+  pose proof (count_der_LF DExc e _ _ Hlk) as Hlk3. pose proof (count_der_LF DFail e _ _ Hlk) as Hlk4.
+  unfold s'. destruct (is_none y) eqn:Hnone.
+  - exists (lk ++ [LG e i k]). split; [exact Hv1|]. split; [fa; repeat constructor|].
+    split; [apply in_or_app; right; left; reflexivity|].
+    intros Hvc. destruct (delta_one (spec s) e lk (LG e i k) Hlk1) as (a & b).
+    eapply VC_step with (l := lk ++ [LG e i k]); eauto.
+    + apply (fr_spec _ _ _ _ e (v_fr _ _ _ _ Hv1) He).
+    + apply (f_log _ _ _ _ (v_fr _ _ _ _ Hv1)).
+    + rewrite a, Hc, Hval1. unfold nonnone. now rewrite Hnone.
+    + rewrite a, Hc, Hval1. unfold nonnone. rewrite Hnone. simpl. now rewrite orb_false_r.
+    + rewrite b, Hr, Hval1. simpl. now rewrite orb_false_r.
+    + rewrite b, Hr, count_der_app, Hlk3. reflexivity.
+    + rewrite b, Hr, count_der_app, Hlk4. simpl. now destruct (ev_fail (spec s e)).
+  - destruct (set_value_vop e y s2 He2 Hnone) as (li & Hv2 & Hli & Hval2).
+    destruct (li_facts e li Hli) as (q1 & q2 & q3 & q4 & q5 & q6).
+    exists (li ++ lk ++ [LG e i k]). split; [eapply vop_trans; eauto|].
+    split; [fa; repeat constructor|].
+    split; [apply in_or_app; right; apply in_or_app; right; left; reflexivity|].
+    intros Hvc.
+    destruct (delta_one (spec s) e (li ++ lk) (LG e i k) ltac:(fa)) as (a & b).
+    assert (Hvt : vop e ((li ++ lk) ++ [LG e i k]) s (set_value e y s2))
+      by (rewrite <- app_assoc; eapply vop_trans; eauto).
+    eapply VC_step with (l := (li ++ lk) ++ [LG e i k]); eauto.
+    + apply (fr_spec _ _ _ _ e (v_fr _ _ _ _ Hvt) He).
+    + apply (f_log _ _ _ _ (v_fr _ _ _ _ Hvt)).
+    + rewrite a, Hc, Hval2, Hval1. unfold nonnone. rewrite Hnone. reflexivity.
+    + rewrite a, Hc, Hval2, Hval1. unfold nonnone. rewrite Hnone. simpl. now rewrite Hnone.
+    + rewrite b, Hr, Hval2, Hval1. simpl. now rewrite orb_false_r.
+    + rewrite b, Hr, !count_der_app, Hlk3, q4. reflexivity.
+    + rewrite b, Hr, !count_der_app, Hlk4, q5. simpl. now destruct (ev_fail (spec s e)).
+Qed.
+
+(* task list surgery *)
+Lemma in_replace_nth : forall (x v : task) p ts, In x (replace_nth p v ts) -> x = v \/ In x ts.
+Proof.
+  intros x v p ts. revert p. induction ts as [|t ts IH]; intros p H; destruct p; simpl in *;
+    try contradiction.
+  - destruct H; auto.
+  - destruct H; auto. destruct (IH p H); auto.
+Qed.
+Lemma in_remove_nth : forall (x : task) p ts, In x (remove_nth p ts) -> In x ts.
+Proof.
+  intros x p ts. revert p. induction ts as [|t ts IH]; intros p H; destruct p; simpl in *;
+    try contradiction; auto.
+  destruct H; auto. right. eapply IH; eauto.
+Qed.
+Lemma ctasks_replace_nth : forall d p t v ts,
+  nth_error ts p = Some t -> tev v = tev t -> ctasks d (replace_nth p v ts) = ctasks d ts.
+Proof.
+  intros d p t v ts. revert p. unfold ctasks.
+  induction ts as [|t0 ts IH]; intros p Hn Hv; destruct p; simpl in *; try discriminate.
+  - inversion Hn; subst. rewrite Hv. destruct (Nat.eqb (tev t) d); reflexivity.
+  - destruct (Nat.eqb (tev t0) d); simpl; rewrite (IH p); auto.
+Qed.
+Lemma ctasks_remove_nth : forall d p t ts,
+  nth_error ts p = Some t ->
+  ctasks d ts = ctasks d (remove_nth p ts) + (if Nat.eqb (tev t) d then 1 else 0).
+Proof.
+  intros d p t ts. revert p. unfold ctasks.
+  induction ts as [|t0 ts IH]; intros p Hn; destruct p; simpl in *; try discriminate.
+  - inversion Hn; subst. destruct (Nat.eqb (tev t) d); simpl; lia.
+  - destruct (Nat.eqb (tev t0) d); simpl; rewrite (IH p Hn); lia.
+Qed.
+
+Lemma val_set_errors : forall e s, val (set_errors e s) e = seterr (val s e).
+Proof. intros. unfold set_errors. simpl. now rewrite upd_same. Qed.
+
+Lemma dispatch_der_ssum : forall e k x a o s,
+  e < next s -> kind s e = KDer k x a o -> waiting s e = 0 -> ctasks e (tasks s) = 0 ->
+  ssum e s (dispatch e s).
+Proof.
+  intros e k x a o s He Hk Hw Hc. unfold dispatch. rewrite Hk.
+  set (xs := map (LDD k x) (observers a o)).
+  assert (Hxs : Forall (about e) xs /\ Forall silent xs /\ Forall nosucc xs).
+  { unfold xs, observers. destruct a, o; simpl; repeat split; repeat constructor. }
+  destruct Hxs as (x1 & x2 & x3).
+  destruct (log_all_vop e xs s He x1 x2 x3) as (l & Hv & Hs & Hn & Hval).
+  set (s1 := log_all xs s) in *.
+  pose proof (v_fr _ _ _ _ Hv) as Hf.
+  assert (He1 : e < next s1) by (pose proof (f_next _ _ _ _ Hf); lia).
+  assert (Hfa : fr e ([] ++ l) s (set_phase e PFin s1)).
+  { eapply fr_trans; [exact He | exact Hf | apply fr_set_phase]. }
+  exists l, false. split; [exact Hfa|]. split; [exact Hn|]. split; [intros E; congruence|].
+  split.
+  { intros Hvc. eapply (VC_fr_silent e _ s); eauto. }
+  simpl. rewrite (v_wait _ _ _ _ Hv), (v_tasks _ _ _ _ Hv), Hw, Hc, upd_same. simpl. auto.
+Qed.
+
+Lemma step_task_ssum : forall p t s,
+  nth_error (tasks s) p = Some t -> tev t < next s -> phase s (tev t) = PActive ->
+  waiting s (tev t) = ctasks (tev t) (tasks s) ->
+  step_task p s = s \/ ssum (tev t) s (step_task p s).
+Proof.
+  intros p t s Hn He Hph Hw. unfold step_task. rewrite Hn.
+  set (e := tev t) in *.
+  assert (Hpos : 0 < waiting s e).
+  { rewrite Hw. eapply ctasks_pos; [eapply nth_error_In; eauto | reflexivity]. }
+  destruct (nth_error (ev_hs (spec s e)) (thd t)) as [[kids r | ys lk gr]|] eqn:Hh; auto.
+  right.
+  assert (Hrm : ctasks e (tasks s) = ctasks e (remove_nth p (tasks s)) + 1).
+  { rewrite (ctasks_remove_nth e p t _ Hn). fold e. now rewrite Nat.eqb_refl. }
+  assert (Hrm' : forall d, d <> e -> ctasks d (remove_nth p (tasks s)) = ctasks d (tasks s)).
+  { intros d Hne. rewrite (ctasks_remove_nth d p t _ Hn). fold e.
+    destruct (Nat.eqb e d) eqn:E; [apply Nat.eqb_eq in E; congruence | lia]. }
+  destruct (nth_error ys (tk t)) as [[kids y]|] eqn:Hy.
+  - (* a yielding segment *)
+    assert (Hc : contrib (spec s) e (LG e (thd t) (tk t)) = nonnone y)
+      by (simpl; now rewrite Nat.eqb_refl, Hh, Hy).
+    assert (Hr : raises (spec s) e (LG e (thd t) (tk t)) = false)
+      by (simpl; now rewrite Nat.eqb_refl, Hh, Hy).
+    destruct (yield_unit e (thd t) (tk t) kids y s He Hc Hr) as (l & Hv & Hns & _ & Hvc).
+    cbv zeta in Hv, Hvc.
+    set (s3 := if is_none y then fire_all kids (add_log (LG e (thd t) (tk t)) s)
+               else set_value e y (fire_all kids (add_log (LG e (thd t) (tk t)) s))) in *.
+    set (t' := {| tev := e; thd := thd t; tk := S (tk t) |}).
+    exists l, false. simpl succ_log. simpl app.
+    rewrite (v_tasks _ _ _ _ Hv).
+    split.
+    { rewrite <- (app_nil_l l). eapply fr_trans; [exact He | apply (v_fr _ _ _ _ Hv) | apply fr_set_tasks]. }
+    split; [exact Hns|]. simpl.
+    rewrite (v_phase _ _ _ _ Hv), (v_wait _ _ _ _ Hv), Hph.
+    split.
+    { intros _. unfold succ_formula. simpl. rewrite (v_phase _ _ _ _ Hv), Hph. reflexivity. }
+    split.
+    { intros H. apply Hvc in H. destruct H as [v1 v2 v3 v4 v5]. split; simpl; auto. }
+    split; [rewrite (ctasks_replace_nth e p t t' _ Hn eq_refl); exact Hw|].
+    split; [intros d _; apply (ctasks_replace_nth d p t t' _ Hn eq_refl)|].
+    split.
+    { intros t0 Hin. apply in_replace_nth in Hin. destruct Hin as [->|Hin]; auto. }
+    destruct (Nat.eqb (waiting s e) 0) eqn:E; auto. apply Nat.eqb_eq in E. lia.
+  - (* the terminal segment *)
+    destruct gr.
+    + (* ... raises *)
+      destruct (enter_vop e (LG e (thd t) (tk t)) lk s He eq_refl) as (lk' & Hv1 & Hlk & Hval1 & Hn1).
+      set (s2 := fire_all lk (add_log (LG e (thd t) (tk t)) s)) in *.
+      assert (He2 : e < next s2) by lia.
+      pose proof (v_fr _ _ _ _ Hv1) as F1.
+      unfold task_raise.
+      set (s3 := set_tasks (remove_nth p (tasks s2)) s2).
+      assert (He3 : e < next s3) by (simpl; lia).
+      destruct (set_value_vop e PErr s3 He3 eq_refl) as (li1 & Hv4 & Hli1 & Hval4).
+      set (s4 := set_value e PErr s3) in *.
+      pose proof (v_fr _ _ _ _ Hv4) as F4.
+      assert (He4 : e < next s4) by (pose proof (f_next _ _ _ _ F4); lia).
+      set (s5 := set_errors e s4).
+      assert (He5 : e < next s5) by (simpl; lia).
+      destruct (inform_vop true e s5 He5) as (li2 & Hv6 & Hli2 & Hval6).
+      set (s6 := inform true e s5) in *.
+      pose proof (v_fr _ _ _ _ Hv6) as F6.
+      assert (He6 : e < next s6) by (pose proof (f_next _ _ _ _ F6); lia).
+      pose proof (ext_raise_feedback e s6) as X7.
+      set (s7 := raise_feedback e s6) in *.
+      assert (He7 : e < next s7) by (pose proof (x_next _ _ _ X7); lia).
+      assert (Hsp6 : spec s6 e = spec s e).
+      { rewrite (fr_spec _ _ _ _ e F6 He5). change (spec s5 e) with (spec s4 e).
+        rewrite (fr_spec _ _ _ _ e F4 He3). change (spec s3 e) with (spec s2 e).
+        apply (fr_spec _ _ _ _ e F1 He). }
+      rewrite Hsp6 in X7. set (fb := fb_log (ev_fail (spec s e)) e) in *.
+      destruct (fb_facts e (ev_fail (spec s e))) as (b1 & b2 & b3 & b4 & b5 & b6). fold fb in b1, b2, b3, b4, b5, b6.
+      destruct (li_facts e li1 Hli1) as (p1 & p2 & p3 & p4 & p5 & p6).
+      destruct (li_facts e li2 Hli2) as (q1 & q2 & q3 & q4 & q5 & q6).
+      set (s8 := set_wait e (pred (waiting s7 e)) s7).
+      assert (He8 : e < next s8) by exact He7.
+      assert (Hval8 : val s8 e = seterr (setv (val s e) PErr)).
+      { change (val s8 e) with (val s7 e). rewrite (ext_val _ _ _ e X7 He6), Hval6.
+        unfold s5. rewrite val_set_errors, Hval4. change (val s3 e) with (val s2 e).
+        rewrite Hval1. reflexivity. }
+      assert (Herr8 : true = true -> verrors (val s8 e) = true) by (intros _; rewrite Hval8; reflexivity).
+      destruct (event_done_sum e true s8 He8 Herr8) as (F9 & Hval9 & Hw9 & Ht9 & Hp9).
+      set (s' := event_done e true s8) in *.
+      assert (Hcond : Nat.eqb (waiting s8 e) 0 && negb (verrors (val s8 e)) && ev_succ (spec s8 e) = false).
+      { rewrite Hval8. simpl. now rewrite andb_false_r. }
+      rewrite Hcond in F9.
+      assert (Hw8 : waiting s8 e = pred (waiting s e)).
+      { change (waiting s8 e) with (upd (waiting s7) e (pred (waiting s7 e)) e).
+        rewrite upd_same, (ext_wait _ _ _ e X7 He6), (v_wait _ _ _ _ Hv6).
+        change (waiting s5 e) with (waiting s4 e). rewrite (v_wait _ _ _ _ Hv4).
+        change (waiting s3 e) with (waiting s2 e). rewrite (v_wait _ _ _ _ Hv1). reflexivity. }
+      assert (Ht8 : tasks s8 = remove_nth p (tasks s)).
+      { change (tasks s8) with (tasks s7). rewrite (x_tasks _ _ _ X7), (v_tasks _ _ _ _ Hv6).
+        change (tasks s5) with (tasks s4). rewrite (v_tasks _ _ _ _ Hv4).
+        change (tasks s3) with (remove_nth p (tasks s2)). rewrite (v_tasks _ _ _ _ Hv1). reflexivity. }
+      assert (Hp8 : phase s8 e = PActive).
+      { change (phase s8 e) with (phase s7 e). rewrite (ext_phase _ _ _ e X7 He6), (v_phase _ _ _ _ Hv6).
+        change (phase s5 e) with (phase s4 e). rewrite (v_phase _ _ _ _ Hv4).
+        change (phase s3 e) with (phase s2 e). rewrite (v_phase _ _ _ _ Hv1). exact Hph. }
+      set (A := fb ++ li2 ++ li1 ++ lk').
+      assert (Fa : fr e (A ++ [LG e (thd t) (tk t)]) s s').
+      { unfold A. rewrite <- !app_assoc.
+        change (fb ++ li2 ++ li1 ++ lk' ++ [LG e (thd t) (tk t)])
+          with (succ_log e false ++ [] ++ fb ++ li2 ++ [] ++ li1 ++ [] ++ lk' ++ [LG e (thd t) (tk t)]).
+        eapply fr_trans; [exact He | | exact F9].
+        eapply fr_trans; [exact He | | apply fr_set_wait].
+        eapply fr_trans; [exact He | | apply ext_fr; [exact X7 | exact b3]].
+        eapply fr_trans; [exact He | | exact F6].
+        eapply fr_trans; [exact He | | apply fr_set_val].
+        eapply fr_trans; [exact He | | exact F4].
+        eapply fr_trans; [exact He | exact F1 | apply fr_set_tasks]. }
+      pose proof (LF_nonh _ _ Hlk) as Hlk1. pose proof (LF_nosucc _ _ Hlk) as Hlk2.
+      pose proof (count_der_LF DExc e _ _ Hlk) as Hlk3. pose proof (count_der_LF DFail e _ _ Hlk) as Hlk4.
+      exists (A ++ [LG e (thd t) (tk t)]), false. split; [exact Fa|].
+      split; [unfold A; fa; repeat constructor|].
+      split.
+      { intros _. unfold succ_formula. rewrite Hval9, Hval8. simpl. now rewrite andb_false_r. }
+      split.
+      { intros Hvc.
+        destruct (delta_one (spec s) e A (LG e (thd t) (tk t)) ltac:(unfold A; fa)) as (a & b).
+        assert (Hc : contrib (spec s) e (LG e (thd t) (tk t)) = [PErr])
+          by (simpl; now rewrite Nat.eqb_refl, Hh, Hy).
+        assert (Hr : raises (spec s) e (LG e (thd t) (tk t)) = true)
+          by (simpl; now rewrite Nat.eqb_refl, Hh, Hy).
+        eapply VC_step with (l := A ++ [LG e (thd t) (tk t)]); eauto.
+        - apply (fr_spec _ _ _ _ e Fa He).
+        - apply (f_log _ _ _ _ Fa).
+        - rewrite a, Hc, Hval9, Hval8. reflexivity.
+        - rewrite a, Hc, Hval9, Hval8. reflexivity.
+        - rewrite b, Hr, Hval9, Hval8. simpl. now rewrite orb_true_r.
+        - rewrite b, Hr. unfold A. rewrite !count_der_app, Hlk3, p4, q4, b4. reflexivity.
+        - rewrite b, Hr. unfold A. rewrite !count_der_app, Hlk4, p5, q5, b5. simpl.
+          destruct (ev_fail (spec s e)); reflexivity. }
+      rewrite Hp9, Hp8, Hw9, Ht9, Ht8, Hw8.
+      split; [lia|]. split; [exact Hrm'|].
+      split; [intros t0 Hin; right; eapply in_remove_nth; eauto|]. reflexivity.
+    + (* ... returns *)
+      assert (Hc : contrib (spec s) e (LG e (thd t) (tk t)) = nonnone PNone)
+        by (simpl; now rewrite Nat.eqb_refl, Hh, Hy).
+      assert (Hr : raises (spec s) e (LG e (thd t) (tk t)) = false)
+        by (simpl; now rewrite Nat.eqb_refl, Hh, Hy).
+      destruct (yield_unit e (thd t) (tk t) lk PNone s He Hc Hr) as (l & Hv & Hns & _ & Hvc).
+      cbv zeta in Hv, Hvc. simpl is_none in Hv, Hvc. cbv iota in Hv, Hvc.
+      set (s2 := fire_all lk (add_log (LG e (thd t) (tk t)) s)) in *.
+      pose proof (v_fr _ _ _ _ Hv) as F1.
+      assert (He2 : e < next s2) by (pose proof (f_next _ _ _ _ F1); lia).
+      unfold task_stop.
+      set (s3 := set_tasks (remove_nth p (tasks s2)) (set_wait e (pred (waiting s2 e)) s2)).
+      assert (He3 : e < next s3) by (simpl; lia).
+      assert (F3 : fr e l s s3).
+      { rewrite <- (app_nil_l l). eapply fr_trans; [exact He | exact F1 |].
+        change (@nil entry) with (@nil entry ++ []).
+        eapply fr_trans; [exact He2 | apply fr_set_wait | apply fr_set_tasks]. }
+      assert (Hw3 : waiting s3 e = pred (waiting s e)).
+      { simpl. rewrite upd_same, (v_wait _ _ _ _ Hv). reflexivity. }
+      assert (Ht3 : tasks s3 = remove_nth p (tasks s)).
+      { simpl. rewrite (v_tasks _ _ _ _ Hv). reflexivity. }
+      assert (Hp3 : phase s3 e = PActive).
+      { simpl. rewrite (v_phase _ _ _ _ Hv). exact Hph. }
+      assert (Hvc3 : VC s e -> VC s3 e).
+      { intros H. apply Hvc in H. destruct H as [v1 v2 v3 v4 v5]. split; simpl; auto. }
+      assert (Hval3 : val s3 e = val s2 e) by reflexivity.
+      fold s3.
+      destruct (Nat.eqb (waiting s3 e) 0) eqn:E.
+      * destruct (inform_vop true e s3 He3) as (li & Hv4 & Hli & Hval4).
+        set (s4 := inform true e s3) in *.
+        pose proof (v_fr _ _ _ _ Hv4) as F4.
+        assert (He4 : e < next s4) by (pose proof (f_next _ _ _ _ F4); lia).
+        destruct (li_facts e li Hli) as (q1 & q2 & q3 & q4 & q5 & q6).
+        destruct (event_done_sum e false s4 He4 ltac:(discriminate)) as (F5 & Hval5 & Hw5 & Ht5 & Hp5).
+        set (s' := event_done e false s4) in *.
+        assert (Hw4 : waiting s4 e = 0).
+        { rewrite (v_wait _ _ _ _ Hv4). now apply Nat.eqb_eq. }
+        rewrite Hw4 in Hp5, F5. simpl Nat.eqb in Hp5, F5. rewrite andb_true_l in F5.
+        set (b := negb (verrors (val s4 e)) && ev_succ (spec s4 e)) in *.
+        exists (li ++ l), b. split.
+        { eapply fr_trans; [exact He | | exact F5]. eapply fr_trans; [exact He | exact F3 | exact F4]. }
+        split; [fa|].
+        split.
+        { intros _. unfold b, succ_formula. rewrite Hp5, Hval5, (fr_spec _ _ _ _ e F5 He4). reflexivity. }
+        split.
+        { intros H. eapply (VC_fr_silent e _ s4 s'); eauto; [apply succ_log_silent|].
+          eapply (VC_fr_silent e _ s3 s4); eauto.
+          destruct Hli as [-> | ->]; repeat constructor. }
+        rewrite Hw5, Hw4, Ht5, (v_tasks _ _ _ _ Hv4), Ht3, Hp5.
+        apply Nat.eqb_eq in E. rewrite Hw3 in E.
+        split; [lia|]. split; [exact Hrm'|].
+        split; [intros t0 Hin; right; eapply in_remove_nth; eauto|]. reflexivity.
+      * exists l, false. split; [exact F3|]. split; [exact Hns|].
+        split.
+        { intros _. unfold succ_formula. rewrite Hp3. reflexivity. }
+        split; [exact Hvc3|].
+        rewrite Ht3, Hp3, E. apply Nat.eqb_neq in E. rewrite Hw3 in *.
+        split; [lia|]. split; [exact Hrm'|].
+        split; [intros t0 Hin; right; eapply in_remove_nth; eauto|]. reflexivity.
+Qed.
+
+(* ------------------------------------------------------------------ the invariant holds in every reachable state *)
+
+Lemma inv_start : forall roots, Inv (start roots).
+Proof.
+  intros roots. unfold start.
+  destruct (ext_fire_all roots init) as (l & [x1 x2 x3 x4 x5 x6] & Hl).
+  set (s := fire_all roots init) in *. simpl in x1, x3, x4, x5, x6.
+  rewrite Nat.sub_0_r in x5. rewrite app_nil_r in x6.
+  pose proof (LF_nonh _ _ Hl) as Hnh.
+  split.
+  - intros d Hd. rewrite x5 in Hd. apply in_seq in Hd. split; [lia|]. apply x3. lia.
+  - rewrite x5. apply seq_NoDup.
+  - intros d Hd _ _. rewrite x5. apply in_seq. lia.
+  - intros t Hin. rewrite x4 in Hin. contradiction.
+  - intros d Hd. rewrite x4. destruct (x3 d ltac:(lia)) as (_ & Hw & _). rewrite Hw. reflexivity.
+  - intros d Hd Hp. destruct (x3 d ltac:(lia)) as (Hq & _ & _). congruence.
+  - rewrite x6. eapply Forall_impl; [|exact Hl]. intros x (d & -> & _). exact I.
+  - intros d Hd. destruct (x3 d ltac:(lia)) as (_ & _ & Hv).
+    destruct (nonh_list (spec s) d l Hnh) as (a & b).
+    split; rewrite ?Hv, x6, ?a, ?b, ?(count_der_LF _ _ _ _ Hl); simpl; auto.
+    now destruct (ev_fail (spec s d)).
+  - intros d Hd Hk. rewrite x6, (count_der_LF _ _ _ _ Hl). unfold succ_formula.
+    destruct (x3 d ltac:(lia)) as (Hq & _ & _). now rewrite Hq.
+  - intros d l1 l2 Hd Hk Hlog. exfalso. rewrite x6 in Hlog.
+    rewrite Forall_forall in Hl. destruct (Hl (LFD DSucc d)) as (d' & Hx & _); [|discriminate].
+    rewrite Hlog. apply in_or_app. right. left. reflexivity.
+Qed.
+
+Lemma inv_step : forall lb s, Inv s -> Inv (step lb s).
+Proof.
+  intros lb s HI. pose proof HI as [q1 q2 q3 t w a lbd vc sc sl]. destruct lb as [|p]; simpl.
+  - destruct (queue s) as [|e q] eqn:Hq; auto.
+    assert (He : e < next s /\ phase s e = PQueued) by (apply q1; simpl; auto).
+    destruct He as (He & Hpe). inversion q2; subst.
+    set (s0 := set_queue q s).
+    assert (HP : PInv (Some e) s0).
+    { split; simpl; auto.
+      - intros d Hd. apply q1. simpl; auto.
+      - intros d Hd Hne Hp. destruct (q3 d Hd ltac:(discriminate) Hp) as [->|]; auto. congruence.
+      - intros d Hd. apply (VC_same s); auto. }
+    apply (step_inv e s0); auto; try (simpl; congruence).
+    assert (Hz : ctasks e (tasks s) = 0).
+    { apply ctasks_zero. intros t0 Hin Heq. destruct (t t0 Hin) as (_ & Hp). congruence. }
+    destruct (kind s e) eqn:Hk.
+    + apply dispatch_user_ssum; auto. simpl. auto.
+    + eapply dispatch_der_ssum; simpl; eauto. rewrite (w e He). exact Hz.
+  - destruct (nth_error (tasks s) p) as [t0|] eqn:Hn.
+    2:{ unfold step_task. now rewrite Hn. }
+    destruct (t t0 (nth_error_In _ _ Hn)) as (He & Hp).
+    destruct (step_task_ssum p t0 s Hn He Hp (w _ He)) as [-> | Hs]; auto.
+    apply (step_inv (tev t0) s); auto.
+    + split; auto. intros d Hd _ Hpd. apply q3; auto. discriminate.
+    + intros Hin. destruct (q1 _ Hin). congruence.
+    + congruence.
+Qed.
+
+Lemma inv_exec : forall ls s, Inv s -> Inv (exec ls s).
+Proof. induction ls as [|lb ls IH]; intros s H; simpl; auto. apply IH. now apply inv_step. Qed.
+
+Theorem reachable_inv : forall s, reachable s -> Inv s.
+Proof. intros s (roots & ls & ->). apply inv_exec, inv_start. Qed.
+
+(* ------------------------------------------------------------------ the property theorems *)
+
+(* the Value of every event always holds what Value.setValue makes of the results produced so far
+   (in production order), its errors flag says whether a handler has raised *)
+Theorem value_tracks : forall s e, reachable s -> e < next s ->
+  vv (val s e) = accum (produced (spec s) e (log s)) /\
+  vresult (val s e) = nonempty (produced (spec s) e (log s)) /\
+  verrors (val s e) = (0 <? nraised (spec s) e (log s)).
+Proof. intros s e Hr He. destruct (i_vc _ _ (reachable_inv s Hr) e He). auto. Qed.
+
+Theorem value_packed : forall s e, reachable s -> e < next s ->
+  (match produced (spec s) e (log s) with x :: _ :: _ => is_list x = false | _ => True end) ->
+  vv (val s e) = pack (produced (spec s) e (log s)).
+Proof. intros s e Hr He H. destruct (value_tracks s e Hr He) as (-> & _). now apply accum_pack. Qed.
+
+(* one exception event per raise; one <name>_failure per raise iff failure feedback was requested *)
+Theorem feedback_counts : forall s e, reachable s -> e < next s ->
+  count_der DExc e (log s) = nraised (spec s) e (log s) /\
+  count_der DFail e (log s) = (if ev_fail (spec s e) then nraised (spec s) e (log s) else 0).
+Proof. intros s e Hr He. destruct (i_vc _ _ (reachable_inv s Hr) e He). auto. Qed.
+
+(* <name>_success: exactly once iff the event has finished, asked for it and no handler raised *)
+Theorem success_count : forall s e, reachable s -> e < next s -> kind s e = KUser ->
+  count_der DSucc e (log s) =
+  (if is_fin (phase s e) && Nat.eqb (nraised (spec s) e (log s)) 0 && ev_succ (spec s e) then 1 else 0).
+Proof.
+  intros s e Hr He Hk. pose proof (reachable_inv s Hr) as HI.
+  rewrite (i_s _ _ HI e He Hk). unfold succ_formula.
+  destruct (i_vc _ _ HI e He) as [_ _ v3 _ _]. rewrite v3.
+  destruct (nraised (spec s) e (log s)); reflexivity.
+Qed.
+
+(* ... and no handler activity of the event follows it *)
+Theorem success_last : forall s e l1 l2, reachable s -> e < next s -> kind s e = KUser ->
+  log s = l1 ++ LFD DSucc e :: l2 -> forall x, In x l1 -> ~ hentry x e.
+Proof. intros s e l1 l2 Hr He Hk. apply (i_sl _ _ (reachable_inv s Hr)); auto. Qed.
+
+(* nothing is lost or stuck: once queue and task set are empty every event that was ever fired
+   (also by handlers that raised, also the feedback events) has been dispatched and has finished *)
+Theorem progress : forall s, reachable s -> quiet s = true ->
+  forall d, d < next s -> phase s d = PFin /\ waiting s d = 0.
+Proof.
+  intros s Hr Hq d Hd. pose proof (reachable_inv s Hr) as HI.
+  unfold quiet in Hq. destruct (queue s) eqn:Eq; [|discriminate]. destruct (tasks s) eqn:Et; [|discriminate].
+  assert (Hw : waiting s d = 0) by (rewrite (i_w _ _ HI d Hd), Et; reflexivity).
+  split; auto. destruct (phase s d) eqn:Ep; auto.
+  - pose proof (i_q3 _ _ HI d Hd ltac:(discriminate) Ep) as Hin. rewrite Eq in Hin. contradiction.
+  - pose proof (i_a _ _ HI d Hd Ep). lia.
+Qed.
+
+(* ------------------------------------------------------------------ a raise does not end the dispatcher pass *)
+
+Lemma run_handlers_all : forall e hs i err s pre,
+  e < next s -> ev_hs (spec s e) = pre ++ hs -> length pre = i ->
+  forall j h, nth_error hs j = Some h ->
+  match h with
+  | HP _ _ => In (LH e (i + j)) (log (fst (run_handlers e i hs err s)))
+  | HG _ _ _ => In {| tev := e; thd := i + j; tk := 0 |} (tasks (fst (run_handlers e i hs err s)))
+  end.
+Proof.
+  intros e hs. induction hs as [|h0 r IH]; intros i err s pre He Hpre Hlen j h Hj.
+  - destruct j; discriminate.
+  - assert (Hnth : nth_error (ev_hs (spec s e)) i = Some h0).
+    { rewrite Hpre, nth_error_app2 by lia. now rewrite <- Hlen, Nat.sub_diag. }
+    simpl run_handlers. destruct (run_handler e i h0 err s) as [s1 err1] eqn:Hrun.
+    assert (Hu : exists l1 t1, dsum e l1 t1 s s1 /\
+              match h0 with HP _ _ => In (LH e i) l1 | HG _ _ _ => In {| tev := e; thd := i; tk := 0 |} t1 end).
+    { destruct h0 as [kids rr | ys lk gr].
+      - destruct (plain_unit e i kids rr err s He Hnth) as (l & Hv & Hn & Hin & Hvc & _ & Hm).
+        rewrite Hrun in *. simpl in *. exists l, []. split; auto. now apply dsum_vop.
+      - simpl in Hrun. inversion Hrun; subst. eexists _, _. split; [apply add_task_dsum|]. simpl; auto. }
+    destruct Hu as (l1 & t1 & Hd1 & Hin1).
+    assert (He1 : e < next s1) by (pose proof (f_next _ _ _ _ (d_fr _ _ _ _ _ Hd1)); lia).
+    assert (Hsp1 : spec s1 e = spec s e) by (apply (fr_spec _ _ _ _ e (d_fr _ _ _ _ _ Hd1) He)).
+    assert (Hpre1 : ev_hs (spec s1 e) = (pre ++ [h0]) ++ r) by (rewrite Hsp1, Hpre, <- app_assoc; reflexivity).
+    assert (Hlen1 : length (pre ++ [h0]) = S i) by (rewrite app_length; simpl; lia).
+    destruct j as [|j].
+    + simpl in Hj. inversion Hj; subst h. rewrite Nat.add_0_r.
+      destruct (run_handlers_sum e r (S i) err1 s1 (pre ++ [h0]) He1 Hpre1 Hlen1) as (l2 & t2 & Hd2 & _).
+      destruct h0.
+      * rewrite (f_log _ _ _ _ (d_fr _ _ _ _ _ Hd2)), (f_log _ _ _ _ (d_fr _ _ _ _ _ Hd1)).
+        apply in_or_app. right. apply in_or_app. left. exact Hin1.
+      * rewrite (d_tasks _ _ _ _ _ Hd2), (d_tasks _ _ _ _ _ Hd1).
+        apply in_or_app. left. apply in_or_app. right. exact Hin1.
+    + simpl in Hj. replace (i + S j) with (S i + j) by lia.
+      apply (IH (S i) err1 s1 (pre ++ [h0]) He1 Hpre1 Hlen1 j h Hj).
+Qed.
+
+(* the dispatcher pass of a user event invokes every plain handler and registers every generator
+   handler of the event, whichever of them raise *)
+Theorem dispatch_runs_all : forall s e j h,
+  e < next s -> kind s e = KUser -> nth_error (ev_hs (spec s e)) j = Some h ->
+  match h with
+  | HP _ _ => In (LH e j) (log (dispatch e s))
+  | HG _ _ _ => In {| tev := e; thd := j; tk := 0 |} (tasks (dispatch e s))
+  end.
+Proof.
+  intros s e j h He Hk Hj. unfold dispatch. rewrite Hk.
+  set (s0 := set_phase e PActive s).
+  assert (He0 : e < next s0) by (simpl; lia).
+  pose proof (run_handlers_all e (ev_hs (spec s0 e)) 0 false s0 [] He0 eq_refl eq_refl j h Hj) as Hall.
+  destruct (run_handlers_sum e (ev_hs (spec s0 e)) 0 false s0 [] He0 eq_refl eq_refl)
+    as (l1 & t1 & Hd1 & Herr1).
+  destruct (run_handlers e 0 (ev_hs (spec s0 e)) false s0) as [s1 err] eqn:Hrun. simpl fst in *. simpl snd in *.
+  assert (He1 : e < next s1) by (pose proof (f_next _ _ _ _ (d_fr _ _ _ _ _ Hd1)); lia).
+  set (xs := map (LDU e) (observers true (ev_both (spec s1 e)))).
+  assert (Hxs : Forall (about e) xs /\ Forall silent xs /\ Forall nosucc xs).
+  { unfold xs, observers. destruct (ev_both (spec s1 e)); simpl; repeat split; repeat constructor. }
+  destruct Hxs as (x1 & x2 & x3).
+  destruct (log_all_vop e xs s1 He1 x1 x2 x3) as (l2 & Hv2 & Hs2 & Hn2 & Hval2).
+  set (s2 := log_all xs s1) in *.
+  assert (He2 : e < next s2) by (pose proof (f_next _ _ _ _ (v_fr _ _ _ _ Hv2)); lia).
+  assert (Herr2 : err = true -> verrors (val s2 e) = true).
+  { intros E. rewrite Hval2. apply Herr1; auto. discriminate. }
+  destruct (event_done_sum e err s2 He2 Herr2) as (Hf3 & _ & _ & Ht3 & _).
+  destruct h; simpl in Hall.
+  - rewrite (f_log _ _ _ _ Hf3), (f_log _ _ _ _ (v_fr _ _ _ _ Hv2)).
+    apply in_or_app. right. apply in_or_app. right. exact Hall.
+  - rewrite Ht3, (v_tasks _ _ _ _ Hv2). exact Hall.
+Qed.
